@@ -1129,7 +1129,1604 @@ Proof.
   inversion H; subst. exact (C17_json_writes_idle _ _ _ _ _ W0 E).
 Qed.
 
+(* ---------------------------------------------------------------------- *)
+(* C17, behavioural form: an idle parser behaves like a fresh one.  The   *)
+(* fields jp_isdbl (outside numbers) and jp_req (outside null/true/false) *)
+(* are dead: jp_req is handled by peq in ChunkProofs.v, jp_isdbl here.    *)
+(* ---------------------------------------------------------------------- *)
+Definition deq (p q : jparser) : Prop :=
+  jp_cur p = jp_cur q /\ jp_states p = jp_states q /\ jp_lit p = jp_lit q /\
+  jp_inesc p = jp_inesc q /\ jp_req p = jp_req q /\ jp_err p = jp_err q /\
+  (jp_cur p = jNumber -> jp_isdbl p = jp_isdbl q).
+
+Lemma deq_refl : forall p, deq p p.
+Proof. intros p. unfold deq. repeat split. Qed.
+
+Lemma deq_num_eq : forall p q, deq p q -> jp_cur p = jNumber -> p = q.
+Proof.
+  intros [c st l ie d r e] [c' st' l' ie' d' r' e'] (H1 & H2 & H3 & H4 & H5 & H6 & H7) K.
+  cbn [jp_cur jp_states jp_lit jp_inesc jp_isdbl jp_req jp_err] in *.
+  specialize (H7 K). subst. reflexivity.
+Qed.
+
+Lemma deq_setdbl : forall p q, deq p q -> q = jset_isdbl p (jp_isdbl q).
+Proof.
+  intros [c st l ie d r e] [c' st' l' ie' d' r' e'] (H1 & H2 & H3 & H4 & H5 & H6 & H7).
+  cbn [jp_cur jp_states jp_lit jp_inesc jp_isdbl jp_req jp_err] in *.
+  subst. reflexivity.
+Qed.
+
+Lemma deq_dbl : forall p x, jp_cur p <> jNumber -> deq p (jset_isdbl p x).
+Proof. intros p x K. unfold deq. js. repeat split. intros; contradiction. Qed.
+
+Lemma ret_not_number : forall c, ret_state c -> c <> jNumber.
+Proof. intros c H. unfold ret_state in H. ust. lia. Qed.
+
+Lemma jpop_deq : forall p x, Forall ret_state (jp_states p) -> deq (jpop p) (jpop (jset_isdbl p x)).
+Proof.
+  intros p x HF. unfold jpop. js. destruct (jp_states p) as [|c r].
+  - unfold deq. js. repeat split. intros K. vm_compute in K. discriminate K.
+  - inversion HF as [|? ? Hc Hr]; subst. unfold deq. js. repeat split.
+    intros K. exfalso. exact (ret_not_number _ Hc K).
+Qed.
+
+Definition rdeq (r r' : jsres) : Prop :=
+  match r, r' with
+  | JS p1 s1 rest d e, JS p2 s2 rest' d' e' => deq p1 p2 /\ s1 = s2 /\ rest = rest' /\ d = d' /\ e = e'
+  | JCrash w, JCrash w' => w = w'
+  | _, _ => False
+  end.
+Lemma rdeq_refl : forall r, rdeq r r.
+Proof. intros [p s rest d e|w]; cbn [rdeq]; auto using deq_refl. Qed.
+
+Ltac rd := cbn [rdeq]; split; [|repeat split; reflexivity].
+Ltac deq_tac :=
+  unfold deq; js; repeat split;
+  try (let K := fresh "K" in intros K; first [ (vm_compute in K; discriminate K) | congruence | contradiction ]).
+
+Lemma do_string_dbl : forall p x b,
+  do_string (jset_isdbl p x) b =
+  match do_string p b with
+  | DSMore p1 => DSMore (jset_isdbl p1 x)
+  | DSDone p1 c r => DSDone (jset_isdbl p1 x) c r
+  | DSErr p1 => DSErr (jset_isdbl p1 x)
+  | DSCrash w => DSCrash w
+  end.
+Proof.
+  intros p x b. unfold do_string. js.
+  destruct (if zlen (jp_lit p) =? 0 then _ else _) as [buf|]; [|reflexivity].
+  destruct (scan_quote buf (jp_inesc p) 0) as [found inesc].
+  destruct found as [i|]; js; [|reflexivity].
+  destruct (zlen _ <? 2); [reflexivity|]. destruct (unquote _); reflexivity.
+Qed.
+
+Lemma step_string_dbl : forall p x s b,
+  jp_cur p <> jNumber -> Forall ret_state (jp_states p) ->
+  rdeq (step_string p s b) (step_string (jset_isdbl p x) s b).
+Proof.
+  intros p x s b K HF. unfold step_string. rewrite do_string_dbl.
+  pose proof (do_string_same p b) as Hs.
+  destruct (do_string p b) as [p1|p1 c r|p1|w]; try destruct Hs as (H1 & H2 & H3 & H4 & H5).
+  - rd. apply deq_dbl. rewrite H1. exact K.
+  - destruct (jvis s _) as [s1 e]. rd. apply jpop_deq. rewrite H2. exact HF.
+  - rd. apply deq_dbl. rewrite H1. exact K.
+  - reflexivity.
+Qed.
+
+Lemma step_dict_key_dbl : forall p x s b,
+  jp_cur p <> jNumber ->
+  rdeq (step_dict_key p s b) (step_dict_key (jset_isdbl p x) s b).
+Proof.
+  intros p x s b K. unfold step_dict_key. rewrite do_string_dbl.
+  pose proof (do_string_same p b) as Hs.
+  destruct (do_string p b) as [p1|p1 c r|p1|w]; try destruct Hs as (H1 & H2 & H3 & H4 & H5).
+  - rd. apply deq_dbl. rewrite H1. exact K.
+  - destruct (jvis s _) as [s1 e]. rd. deq_tac.
+  - rd. apply deq_dbl. rewrite H1. exact K.
+  - reflexivity.
+Qed.
+
+Lemma step_kind_dbl : forall p x s b kind ev,
+  jp_cur p <> jNumber -> Forall ret_state (jp_states p) ->
+  rdeq (step_kind p s b kind ev) (step_kind (jset_isdbl p x) s b kind ev).
+Proof.
+  intros p x s b kind ev K HF. unfold step_kind. js.
+  destruct (_ || _); [reflexivity|]. cbv zeta.
+  destruct (negb (zlen b <? jp_req p)).
+  - destruct (negb (has_prefix _ _)); [rd; apply deq_dbl; exact K|].
+    destruct (jvis s ev) as [s2 e]. rd. apply jpop_deq. exact HF.
+  - destruct (negb (has_prefix _ _)); rd; deq_tac.
+Qed.
+
+Lemma end_container_dbl : forall p x s b ev,
+  Forall ret_state (jp_states p) ->
+  rdeq (end_container p s b ev) (end_container (jset_isdbl p x) s b ev).
+Proof.
+  intros p x s b ev HF. unfold end_container. destruct b as [|c r]; [reflexivity|].
+  destruct (jvis s ev) as [s1 e]. rd. apply jpop_deq. exact HF.
+Qed.
+
+Lemma step_value_dbl : forall p x s b ret,
+  jp_cur p <> jNumber -> Forall ret_state (jp_states p) -> ret_state ret ->
+  rdeq (step_value pf p s b ret) (step_value pf (jset_isdbl p x) s b ret).
+Proof.
+  intros p x s b ret K HF Hret. unfold step_value.
+  destruct (trim_left b) as [|c r]; [rd; apply deq_dbl; exact K|].
+  assert (HF' : Forall ret_state (if ret =? jFailed then jp_states p else ret :: jp_states p)).
+  { destruct (ret =? jFailed); [exact HF|constructor; assumption]. }
+  destruct (c =? 123). { destruct (jvis s _) as [s1 e]. rd. deq_tac. }
+  destruct (c =? 91). { destruct (jvis s _) as [s1 e]. rd. deq_tac. }
+  destruct (c =? 110).
+  { apply (step_kind_dbl (jset_req (jpush (jset_cur p ret) jNull) 3) x); js; [discriminate|exact HF']. }
+  destruct (c =? 102).
+  { apply (step_kind_dbl (jset_req (jpush (jset_cur p ret) jFalse) 4) x); js; [discriminate|exact HF']. }
+  destruct (c =? 116).
+  { apply (step_kind_dbl (jset_req (jpush (jset_cur p ret) jTrue) 3) x); js; [discriminate|exact HF']. }
+  destruct (c =? 34).
+  { apply (step_string_dbl (jset_inesc (jpush (jset_lit (jset_cur p ret) []) jString) false) x); js;
+      [discriminate|exact HF']. }
+  destruct (_ || _). { apply rdeq_refl. }
+  apply rdeq_refl.
+Qed.
+
+Lemma step_dict_dbl : forall p x s b ae,
+  jp_cur p <> jNumber -> Forall ret_state (jp_states p) ->
+  rdeq (step_dict p s b ae) (step_dict (jset_isdbl p x) s b ae).
+Proof.
+  intros p x s b ae K HF. unfold step_dict.
+  destruct (trim_left b) as [|c r]; [rd; apply deq_dbl; exact K|].
+  destruct (c =? 125).
+  { destruct (negb ae); [rd; apply deq_dbl; exact K|]. apply end_container_dbl. exact HF. }
+  destruct (c =? 34); rd; [deq_tac|apply deq_dbl; exact K].
+Qed.
+
+Lemma step_dict_value_end_dbl : forall p x s b,
+  jp_cur p <> jNumber -> Forall ret_state (jp_states p) ->
+  rdeq (step_dict_value_end p s b) (step_dict_value_end (jset_isdbl p x) s b).
+Proof.
+  intros p x s b K HF. unfold step_dict_value_end.
+  destruct (trim_left b) as [|c r]; [rd; apply deq_dbl; exact K|].
+  destruct (c =? 125); [apply end_container_dbl; exact HF|].
+  destruct (c =? 44); rd; [deq_tac|apply deq_dbl; exact K].
+Qed.
+
+Lemma step_array_dbl : forall p x s b,
+  jp_cur p <> jNumber -> Forall ret_state (jp_states p) ->
+  rdeq (step_array p s b) (step_array (jset_isdbl p x) s b).
+Proof.
+  intros p x s b K HF. unfold step_array.
+  destruct (trim_left b) as [|c r]; [rd; apply deq_dbl; exact K|].
+  destruct (c =? 93); [apply end_container_dbl; exact HF|].
+  rd; deq_tac.
+Qed.
+
+Lemma step_arr_value_end_dbl : forall p x s b,
+  jp_cur p <> jNumber -> Forall ret_state (jp_states p) ->
+  rdeq (step_arr_value_end p s b) (step_arr_value_end (jset_isdbl p x) s b).
+Proof.
+  intros p x s b K HF. unfold step_arr_value_end.
+  destruct (trim_left b) as [|c r]; [rd; apply deq_dbl; exact K|].
+  destruct (c =? 93); [apply end_container_dbl; exact HF|].
+  destruct (c =? 44); rd; [deq_tac|apply deq_dbl; exact K].
+Qed.
+
+Lemma jstep_dbl : forall p x s b,
+  jp_cur p <> jNumber -> Forall ret_state (jp_states p) ->
+  rdeq (jstep pf p s b) (jstep pf (jset_isdbl p x) s b).
+Proof.
+  intros p x s b K HF. unfold jstep. js.
+  destruct (jp_cur p =? jFailed).
+  { destruct (jp_err p =? 0); rd; deq_tac. }
+  destruct (jp_cur p =? jStart). { apply step_value_dbl; auto. left; reflexivity. }
+  destruct (jp_cur p =? jDict). { apply step_dict_dbl; auto. }
+  destruct (jp_cur p =? jDictNextField). { apply step_dict_dbl; auto. }
+  destruct (jp_cur p =? jDictField). { apply step_dict_key_dbl; auto. }
+  destruct (jp_cur p =? jDictFieldValueSep).
+  { destruct (trim_left b) as [|c r]; rd; [apply deq_dbl; exact K|deq_tac]. }
+  destruct (jp_cur p =? jDictFieldValue). { apply step_value_dbl; auto. right; left; reflexivity. }
+  destruct (jp_cur p =? jDictFieldStateEnd). { apply step_dict_value_end_dbl; auto. }
+  destruct (jp_cur p =? jArr). { apply step_array_dbl; auto. }
+  destruct (jp_cur p =? jArrValue).
+  { assert (Hr : ret_state jArrNext) by (right; right; reflexivity).
+    pose proof (step_value_dbl p x s b jArrNext K HF Hr) as Hq.
+    destruct (step_value pf p s b jArrNext) as [p1 s1 r1 d1 e1|w],
+             (step_value pf (jset_isdbl p x) s b jArrNext) as [p2 s2 r2 d2 e2|w']; cbn [rdeq] in *; auto.
+    destruct Hq as (H1 & H2 & H3 & H4 & H5). auto. }
+  destruct (jp_cur p =? jArrNext). { apply step_arr_value_end_dbl; auto. }
+  destruct (jp_cur p =? jNull). { apply step_kind_dbl; auto. }
+  destruct (jp_cur p =? jTrue). { apply step_kind_dbl; auto. }
+  destruct (jp_cur p =? jFalse). { apply step_kind_dbl; auto. }
+  destruct (jp_cur p =? jString). { apply step_string_dbl; auto. }
+  destruct (jp_cur p =? jNumber) eqn:E. { apply Z.eqb_eq in E. contradiction. }
+  rd. apply deq_dbl; exact K.
+Qed.
+
+Lemma jstep_deq : forall p q s b,
+  deq p q -> Forall ret_state (jp_states p) ->
+  rdeq (jstep pf p s b) (jstep pf q s b).
+Proof.
+  intros p q s b H HF. destruct (Z.eq_dec (jp_cur p) jNumber) as [K|K].
+  - rewrite (deq_num_eq _ _ H K). apply rdeq_refl.
+  - rewrite (deq_setdbl _ _ H). apply jstep_dbl; assumption.
+Qed.
+
+Definition simd (r r' : fres) : Prop :=
+  let '(p, s, e) := r in let '(p', s', e') := r' in
+  s = s' /\ e = e' /\ (e = jpnil -> deq p p').
+
+Lemma R_deq : forall p s b r, R pf p s b r -> forall q, deq p q -> inv p -> b <> [] ->
+  exists r', R pf q s b r' /\ simd r r'.
+Proof.
+  induction 1 as [p s b p1 s1 rest d e E Hn | p s b p1 s1 rest d r E Hr HR IH | p s b p1 s1 d E];
+    intros q Hq Hi Hb;
+    pose proof (jstep_deq p q s b Hq (inv_states p Hi)) as Hp; rewrite E in Hp;
+    destruct (jstep pf q s b) as [p2 s2 rest2 d2 e2|w] eqn:Eq; cbn [rdeq] in Hp; try contradiction;
+    destruct Hp as (Hp1 & <- & <- & <- & <-).
+  - exists (p2, s1, e). split; [eapply R_err; eauto|]. cbn [simd]. split; [reflexivity|]. split; [reflexivity|]. intros; congruence.
+  - assert (Hi1 : inv p1) by (eapply jstep_inv; eauto).
+    destruct (IH p2 Hp1 Hi1 Hr) as (r' & R' & S').
+    exists r'. split; [eapply R_more; eauto|exact S'].
+  - exists (p2, s1, jpnil). split; [eapply R_stop; eauto|]. cbn [simd]. auto.
+Qed.
+
+Lemma Feed_deq : forall p s b r q, Feed pf p s b r -> deq p q -> inv p ->
+  exists r', Feed pf q s b r' /\ simd r r'.
+Proof.
+  intros p s b r q [[Hb ->]|[Hb HR]] Hq Hi.
+  - exists (q, s, jpnil). split; [left; auto|]. cbn [simd]. auto.
+  - destruct (R_deq _ _ _ _ HR q Hq Hi Hb) as (r' & R' & S'). exists r'. split; [right; auto|exact S'].
+Qed.
+
+Lemma Feed_peq : forall p s b r q, Feed pf p s b r -> peq p q -> inv p ->
+  exists r', Feed pf q s b r' /\ sim r r'.
+Proof.
+  intros p s b r q [[Hb ->]|[Hb HR]] Hq Hi.
+  - exists (q, s, jpnil). split; [left; auto|]. cbn [sim]. auto.
+  - destruct (R_peq pf _ _ _ _ HR q Hq Hi Hb) as (r' & R' & S'). exists r'. split; [right; auto|exact S'].
+Qed.
+
+Lemma jfinalize_deq : forall p q s p' s' e',
+  deq p q -> jfinalize pf p s = Some (p', s', e') -> exists q', jfinalize pf q s = Some (q', s', e').
+Proof.
+  intros p q s p' s' e' H E. destruct (Z.eq_dec (jp_cur p) jNumber) as [K|K].
+  - rewrite <- (deq_num_eq _ _ H K). eauto.
+  - rewrite (deq_setdbl _ _ H). unfold jfinalize in *. js.
+    destruct (jp_cur p =? jNumber) eqn:Ec; [apply Z.eqb_eq in Ec; contradiction|].
+    cbn [negb] in *. destruct (_ && _); inversion E; subst; eauto.
+Qed.
+
+Lemma Whole_deq : forall p q s b o, Whole pf p s b o -> deq p q -> inv p -> Whole pf q s b o.
+Proof.
+  intros p q s b o (pm & sm & em & F & O) Hq Hi.
+  destruct (Feed_deq _ _ _ _ q F Hq Hi) as ([[qm sm'] em'] & F' & S'). cbn [simd] in S'.
+  destruct S' as (<- & <- & S'). exists qm, sm, em. split; [exact F'|].
+  destruct O as [O|[O1 [p' O2]]]; [left; exact O|right]. split; [exact O1|].
+  eapply jfinalize_deq; [apply S'; exact O1|exact O2].
+Qed.
+
+Lemma Whole_peq : forall p q s b o, Whole pf p s b o -> peq p q -> inv p -> Whole pf q s b o.
+Proof.
+  intros p q s b o (pm & sm & em & F & O) Hq Hi.
+  destruct (Feed_peq _ _ _ _ q F Hq Hi) as ([[qm sm'] em'] & F' & S'). cbn [sim] in S'.
+  destruct S' as (<- & <- & S'). exists qm, sm, em. split; [exact F'|].
+  destruct O as [O|[O1 [p' O2]]]; [left; exact O|right]. split; [exact O1|].
+  eapply jfinalize_peq; [apply S'; exact O1|exact O2].
+Qed.
+
+(* a parser that is idle, with an empty literal buffer and no latched error *)
+Definition fresh_like (p : jparser) : Prop := idle p /\ jp_lit p = [] /\ jp_err p = 0.
+
+Lemma fresh_like_inv : forall p, fresh_like p -> Inv p.
+Proof.
+  intros p ((H1 & H2 & H3) & H4 & H5). split; [|exact H5].
+  unfold inv. rewrite H1, H2, H5. ust. repeat split; try lia; try constructor.
+Qed.
+
+Lemma Whole_fresh : forall p s b o, fresh_like p -> Whole pf jparser0 s b o -> Whole pf p s b o.
+Proof.
+  intros p s b o Hf H. pose proof Hf as ((H1 & H2 & H3) & H4 & H5).
+  set (m := jset_isdbl jparser0 (jp_isdbl p)).
+  assert (Hm : Whole pf m s b o).
+  { eapply Whole_deq; [exact H| |apply inv0]. apply deq_dbl. discriminate. }
+  eapply Whole_peq; [exact Hm| |].
+  - unfold peq, m. js. cbn [jparser0 jp_cur jp_states jp_lit jp_inesc jp_isdbl jp_req jp_err].
+    rewrite H1, H2, H3, H4, H5. repeat split. intros K. vm_compute in K. discriminate K.
+  - unfold inv, m; js. cbn [jparser0 jp_cur jp_states jp_lit jp_inesc jp_isdbl jp_req jp_err].
+    ust. repeat split; try lia; try constructor.
+Qed.
+
+Lemma parse_whole_gen : forall p s b p' sf ef,
+  inv (jreset p) -> jp_parse pf p s b = Ok (p', sf, ef) -> Whole pf (jreset p) s b (sf, ef).
+Proof.
+  intros p s b p' sf ef Hi H. rewrite jp_parse_reset in H.
+  destruct (jfeed (2 * length b + 2) pf (jreset p) s b) as [[[p1 s1] e1]| | |] eqn:E; try discriminate.
+  apply jfeed_sound in E; [|exact Hi].
+  exists p1, s1, e1. split; [exact E|].
+  destruct (jisnil e1) eqn:Ee.
+  - apply jisnil_true in Ee. right. split; [exact Ee|]. apply with_final_Some in H. exists p'. exact H.
+  - apply jisnil_false in Ee. inversion H; subst. left. auto.
+Qed.
+
+Lemma jreset_fresh : forall p, jp_inesc p = false -> jp_err p = 0 -> fresh_like (jreset p).
+Proof. intros p H1 H2. unfold fresh_like, idle, jreset; js. auto. Qed.
+
+(* Parse on a used parser = Parse on a fresh parser (same events, same verdict) *)
+Theorem C17_json_reuse_parse : forall p s b p1 s1 e1 p2 s2 e2,
+  jp_inesc p = false -> jp_err p = 0 ->
+  jp_parse pf p s b = Ok (p1, s1, e1) -> jp_parse pf jparser0 s b = Ok (p2, s2, e2) ->
+  s1 = s2 /\ e1 = e2.
+Proof.
+  intros p s b p1 s1 e1 p2 s2 e2 Hi He H1 H2.
+  pose proof (jreset_fresh p Hi He) as Hf.
+  apply parse_whole_gen in H1; [|apply (fresh_like_inv _ Hf)].
+  apply (parse_whole pf) in H2. apply (Whole_fresh _ _ _ _ Hf) in H2.
+  pose proof (Whole_det pf _ _ _ _ _ H1 H2) as E. inversion E. auto.
+Qed.
+
+(* Write on an idle parser with an empty literal buffer = Write on a fresh parser *)
+Theorem C17_json_reuse_writes : forall p s chunks p1 s1 e1 p2 s2 e2,
+  fresh_like p ->
+  jp_writes pf p s chunks = Ok (p1, s1, e1) -> jp_writes pf jparser0 s chunks = Ok (p2, s2, e2) ->
+  s1 = s2 /\ e1 = e2.
+Proof.
+  intros p s chunks p1 s1 e1 p2 s2 e2 Hf H1 H2.
+  apply (writes_whole pf _ _ _ _ _ _ (fresh_like_inv _ Hf)) in H1.
+  apply (writes_whole pf _ _ _ _ _ _ Inv0) in H2. apply (Whole_fresh _ _ _ _ Hf) in H2.
+  pose proof (Whole_det pf _ _ _ _ _ H1 H2) as E. inversion E. auto.
+Qed.
+
+(* an accepted run does not latch an error *)
+Lemma jfinalize_err : forall p s p' s' e, jfinalize pf p s = Some (p', s', e) -> jp_err p' = jp_err p.
+Proof.
+  intros p s p' s' e H. unfold jfinalize in H.
+  destruct (jp_cur p =? jNumber).
+  - destruct (report_number pf s (jp_lit p) (jp_isdbl p)) as [[s1 e1]|]; [|discriminate].
+    destruct (jisnil e1); cbn [negb] in H.
+    + destruct (_ && _); inversion H; subst; apply jpop_err.
+    + inversion H; subst; reflexivity.
+  - cbn [negb] in H. destruct (_ && _); inversion H; subst; reflexivity.
+Qed.
+
+Lemma jp_parse_err0 : forall p s b p' s',
+  jp_inesc p = false -> jp_err p = 0 -> jp_parse pf p s b = Ok (p', s', jpnil) -> jp_err p' = 0.
+Proof.
+  intros p s b p' s' Hi He H. rewrite jp_parse_reset in H.
+  destruct (jfeed (2 * length b + 2) pf (jreset p) s b) as [[[p1 s1] e1]| | |] eqn:E; try discriminate.
+  pose proof (fresh_like_inv _ (jreset_fresh p Hi He)) as HI.
+  destruct (jisnil e1) eqn:Ee.
+  - apply jisnil_true in Ee. subst e1. apply jfeed_sound in E; [|apply HI].
+    pose proof (Feed_Inv pf _ _ _ _ _ E HI) as [_ HI1].
+    apply with_final_Some in H. rewrite (jfinalize_err _ _ _ _ _ H). exact HI1.
+  - inversion H; subst. vm_compute in Ee. discriminate Ee.
+Qed.
+
+(* the statement asked for, with totality: after an accepted Parse on a fresh
+   parser, Parse of any b2 on the same parser object returns, and returns what a
+   fresh parser returns (same events, same verdict), for every visitor *)
+Theorem C17_json_parse_reusable : forall vfail b evs p s b2,
+  jrun_parse pf vfail b = Ok (evs, jpnil, p) ->
+  exists p1 p2 s' e', jp_parse pf p s b2 = Ok (p1, s', e') /\ jp_parse pf jparser0 s b2 = Ok (p2, s', e').
+Proof.
+  intros vfail b evs p s b2 H. unfold jrun_parse in H.
+  destruct (jp_parse pf jparser0 (sink0 vfail) b) as [[[p' s0] e0]| | |] eqn:E; try discriminate.
+  inversion H; subst. clear H.
+  destruct (C17_json_parse_idle jparser0 _ _ _ _ eq_refl E) as (_ & _ & Hi & _).
+  pose proof (jp_parse_err0 jparser0 _ _ _ _ eq_refl eq_refl E) as He.
+  destruct (jp_parse_ok pf p s b2) as (p1 & s1 & e1 & H1 & _); [rewrite He; ust; lia|].
+  destruct (jp_parse_ok pf jparser0 s b2) as (p2 & s2 & e2 & H2 & _); [cbn; ust; lia|].
+  destruct (C17_json_reuse_parse _ _ _ _ _ _ _ _ _ Hi He H1 H2) as [<- <-].
+  exists p1, p2, s1, e1. auto.
+Qed.
+
+(* Write flavour: needs the literal buffer to be empty, i.e. the accepted input must
+   not have ended in a top-level number that only finalize reported (see the
+   counterexample C17_json_write_after_number below) *)
+Theorem C17_json_write_reusable : forall vfail b evs p s chunks,
+  jrun_parse pf vfail b = Ok (evs, jpnil, p) -> jp_lit p = [] ->
+  exists p1 p2 s' e', jp_writes pf p s chunks = Ok (p1, s', e') /\ jp_writes pf jparser0 s chunks = Ok (p2, s', e').
+Proof.
+  intros vfail b evs p s chunks H Hl. unfold jrun_parse in H.
+  destruct (jp_parse pf jparser0 (sink0 vfail) b) as [[[p' s0] e0]| | |] eqn:E; try discriminate.
+  inversion H; subst. clear H.
+  destruct (C17_json_parse_idle jparser0 _ _ _ _ eq_refl E) as (Hc & Hs & Hi & _).
+  pose proof (jp_parse_err0 jparser0 _ _ _ _ eq_refl eq_refl E) as He.
+  assert (Hf : fresh_like p) by (unfold fresh_like, idle; auto).
+  pose proof (fresh_like_inv _ Hf) as [HI _].
+  destruct (jp_writes_ok pf chunks p s (length (jp_states p) + length (jp_lit p)) HI) as (p1 & s1 & e1 & H1 & _); [lia|lia|].
+  destruct (jp_writes_ok pf chunks jparser0 s 0%nat inv0) as (p2 & s2 & e2 & H2 & _); [cbn; lia|cbn; lia|].
+  destruct (C17_json_reuse_writes _ _ _ _ _ _ _ _ _ Hf H1 H2) as [<- <-].
+  exists p1, p2, s1, e1. auto.
+Qed.
+
+(* ====================================================================== *)
+(* Part 3: C18 - the pull decoder                                         *)
+(* ====================================================================== *)
+
+(* ---------- (a) Next always returns ---------- *)
+Lemma jfeed_until_norep : forall fuel p s b orig p1 s1 rest,
+  inv p -> jfeed_until fuel pf p s b orig = Ok (JS p1 s1 rest false jpnil) -> rest = [].
+Proof.
+  induction fuel as [|f IH]; intros p s b orig p1 s1 rest Hi H; [discriminate|].
+  cbn [jfeed_until] in H.
+  destruct (zlen b =? 0) eqn:Eb.
+  { inversion H; subst. destruct rest; [reflexivity|]. unfold zlen in Eb. cbn [length] in Eb. lia. }
+  assert (Hb : b <> []) by (intros ->; discriminate Eb).
+  destruct (jstep pf p s b) as [pa sa ra da ea|w] eqn:E; [|discriminate].
+  destruct (jp_cur p =? jFailed) eqn:Ef.
+  { apply Z.eqb_eq in Ef. destruct (jstep_failed pf p s b Ef) as (p' & err & E' & Hne & _); [apply Hi|].
+    rewrite E in E'. inversion E'; subst. inversion H; subst. congruence. }
+  destruct (jisnil ea) eqn:En; cbn [negb] in H.
+  - apply jisnil_true in En. subst ea.
+    destruct (da && (zlen (jp_states pa) =? 0)); [discriminate|].
+    eapply IH; [|exact H]. eapply jstep_inv; eauto.
+  - apply jisnil_false in En. inversion H; subst. congruence.
+Qed.
+
+Lemma jdec_finalize_ok : forall d s, inv (jd_p d) ->
+  exists d' s' e, jdec_finalize pf d s = Ok (d', s', e) /\ (e = jpnil -> inv (jd_p d')) /\
+                  jd_script d' = jd_script d /\ jd_buf d' = jd_buf d.
+Proof.
+  intros d s Hi. unfold jdec_finalize.
+  destruct (with_final_ok pf (jd_p d) s Hi) as (p' & s' & err & Heq & _).
+  apply with_final_Some in Heq. rewrite Heq.
+  assert (Hinv : err = jpnil -> inv p').
+  { intros ->. unfold jfinalize in Heq. inv_split Hi.
+    destruct (jp_cur (jd_p d) =? jNumber).
+    - destruct (report_number pf s _ _) as [[s1 e]|]; [|discriminate].
+      destruct (jisnil e); cbn [negb] in Heq.
+      + destruct (_ && _); inversion Heq; subst; apply (jpop_ok _ Hst Her).
+      + inversion Heq; subst. unfold inv; auto.
+    - cbn [negb] in Heq. destruct (_ && _); inversion Heq; subst; unfold inv; auto. }
+  destruct (negb (jisnil err)) eqn:En.
+  - eexists _, _, _. split; [reflexivity|]. cbn [jd_p jd_script jd_buf]. auto.
+  - apply negb_false_iff, jisnil_true in En.
+    destruct (jp_cur (jd_p d) =? jNumber); eexists _, _, _; (split; [reflexivity|]);
+      cbn [jd_p jd_script jd_buf]; (split; [|auto]); intros E; auto; ust; lia.
+Qed.
+
+Definition jmeasure (d : jdecoder) : nat :=
+  (2 * length (jd_script d) + match jd_buf d with [] => 0 | _ => 1 end)%nat.
+
+(* C18 (a): from any reachable parser state, for any reader script and any visitor
+   failure index, Next returns (no panic, no missing fuel); a nil verdict keeps
+   the parser invariant, so the next call returns as well *)
+Theorem C18_json_next_total : forall fuel d s,
+  inv (jd_p d) -> (jmeasure d < fuel)%nat ->
+  exists d' s' e, jdec_next fuel pf d s = Ok (d', s', e) /\ (e = jpnil -> inv (jd_p d')) /\
+                  (jmeasure d' <= jmeasure d)%nat.
+Proof.
+  induction fuel as [|f IH]; intros d s Hi Hm; [lia|].
+  (* the part after the buffer has been filled *)
+  assert (Body : forall d1, inv (jd_p d1) -> (jmeasure d1 <= jmeasure d)%nat ->
+            (jd_buf d1 = [] -> (jmeasure d1 < jmeasure d)%nat) ->
+            exists d' s' e,
+              match jfeed_until (jfeed_fuel (jd_buf d1)) pf (jd_p d1) s (jd_buf d1) (jd_buf d1) with
+              | Ok (JS p1 s1 rest rep err) =>
+                  let d2 := {| jd_p := p1; jd_buf := rest; jd_script := jd_script d1; jd_bytesdec := jd_bytesdec d1 |} in
+                  if negb (jisnil err) then Ok ({| jd_p := p1; jd_buf := jd_buf d1; jd_script := jd_script d1; jd_bytesdec := jd_bytesdec d1 |}, s1, err)
+                  else if rep then Ok (d2, s1, jpnil)
+                  else jdec_next f pf d2 s1
+              | Ok (JCrash w) => Panic w
+              | Err e => Err e | Panic w => Panic w | OutOfFuel => OutOfFuel
+              end = Ok (d', s', e) /\ (e = jpnil -> inv (jd_p d')) /\ (jmeasure d' <= jmeasure d)%nat).
+  { intros d1 Hi1 Hm1 Hm2.
+    pose proof (wgt_le1 (jp_cur (jd_p d1))) as Hw.
+    destruct (jfeed_until_ok pf (jfeed_fuel (jd_buf d1)) (jd_p d1) s (jd_buf d1) (jd_buf d1)
+                (length (jp_lit (jd_p d1)) + length (jd_buf d1))%nat
+                (length (jp_states (jd_p d1)) + length (jd_buf d1))%nat Hi1)
+      as (p1 & s1 & rest & rep & err & Heq & _ & _ & Hn); [unfold jfeed_fuel; lia|lia|lia|].
+    rewrite Heq. cbv zeta.
+    destruct (jisnil err) eqn:Ee; cbn [negb].
+    - apply jisnil_true in Ee. subst err. destruct (Hn eq_refl) as (Hi' & _ & _ & Hle & _).
+      destruct rep.
+      + eexists _, _, _. split; [reflexivity|]. cbn [jd_p]. split; [auto|].
+        unfold jmeasure in *. cbn [jd_script jd_buf].
+        destruct rest as [|x rest]; [lia|]. destruct (jd_buf d1); [cbn [length] in Hle; lia|lia].
+      + apply jfeed_until_norep in Heq; [|exact Hi1]. subst rest.
+        destruct (IH {| jd_p := p1; jd_buf := []; jd_script := jd_script d1; jd_bytesdec := jd_bytesdec d1 |} s1)
+          as (d' & s' & e & H1 & H2 & H3); [exact Hi'| |].
+        { unfold jmeasure in *. cbn [jd_script jd_buf] in *. destruct (jd_buf d1); [specialize (Hm2 eq_refl)|]; lia. }
+        exists d', s', e. split; [exact H1|]. split; [exact H2|].
+        unfold jmeasure in *. cbn [jd_script jd_buf] in *. destruct (jd_buf d1); lia.
+    - apply jisnil_false in Ee. eexists _, _, _. split; [reflexivity|]. split; [intros; contradiction|].
+      unfold jmeasure in *. cbn [jd_script jd_buf]. lia. }
+  assert (Fin : forall d1, inv (jd_p d1) -> (jmeasure d1 <= jmeasure d)%nat ->
+            exists d' s' e, jdec_finalize pf d1 s = Ok (d', s', e) /\ (e = jpnil -> inv (jd_p d')) /\
+                            (jmeasure d' <= jmeasure d)%nat).
+  { intros d1 Hi1 Hm1. destruct (jdec_finalize_ok d1 s Hi1) as (d' & s' & e & H1 & H2 & H3 & H4).
+    exists d', s', e. split; [exact H1|]. split; [exact H2|]. unfold jmeasure in *. rewrite H3, H4. exact Hm1. }
+  cbn [jdec_next].
+  destruct (zlen (jd_buf d) =? 0) eqn:Eb.
+  - assert (Hb : jd_buf d = []).
+    { destruct (jd_buf d); [reflexivity|]. unfold zlen in Eb. cbn [length] in Eb. lia. }
+    destruct (jd_bytesdec d); [apply Fin; [exact Hi|lia]|].
+    destruct (jd_script d) as [|[data err] rest] eqn:Es; [apply Fin; [exact Hi|lia]|].
+    cbv zeta.
+    destruct ((zlen data =? 0) && negb (err =? 0)) eqn:Ec.
+    + destruct (err =? jeEOF).
+      * apply Fin; [exact Hi|]. unfold jmeasure. cbn [jd_script jd_buf]. rewrite Es, Hb.
+        apply andb_true_iff in Ec. destruct Ec as [Ec _].
+        destruct data; [cbn [length]; lia|unfold zlen in Ec; cbn [length] in Ec; lia].
+      * eexists _, _, _. split; [reflexivity|]. split.
+        -- intros ->. apply andb_true_iff in Ec. destruct Ec as [_ Ec]. exact Hi.
+        -- unfold jmeasure. cbn [jd_script jd_buf]. rewrite Es, Hb.
+           apply andb_true_iff in Ec. destruct Ec as [Ec _].
+           destruct data; [cbn [length]; lia|unfold zlen in Ec; cbn [length] in Ec; lia].
+    + apply Body; cbn [jd_p jd_buf jd_script]; [exact Hi| |].
+      * unfold jmeasure. cbn [jd_script jd_buf]. rewrite Es, Hb. destruct data; cbn [length]; lia.
+      * intros ->. unfold jmeasure. cbn [jd_script jd_buf]. rewrite Es, Hb. cbn [length]. lia.
+  - apply Body; [exact Hi|lia|]. intros E. rewrite E in Eb. discriminate Eb.
+Qed.
+
+(* ---------- Next, unfolded once ---------- *)
+Definition jdec_body (f : nat) (d1 : jdecoder) (s : sink) : res (jdecoder * sink * Z) :=
+  match jfeed_until (jfeed_fuel (jd_buf d1)) pf (jd_p d1) s (jd_buf d1) (jd_buf d1) with
+  | Ok (JS p1 s1 rest rep err) =>
+      let d2 := {| jd_p := p1; jd_buf := rest; jd_script := jd_script d1; jd_bytesdec := jd_bytesdec d1 |} in
+      if negb (jisnil err) then Ok ({| jd_p := p1; jd_buf := jd_buf d1; jd_script := jd_script d1; jd_bytesdec := jd_bytesdec d1 |}, s1, err)
+      else if rep then Ok (d2, s1, jpnil)
+      else jdec_next f pf d2 s1
+  | Ok (JCrash w) => Panic w
+  | Err e => Err e | Panic w => Panic w | OutOfFuel => OutOfFuel
+  end.
+
+Inductive jfill_res := JFbody (d1 : jdecoder) | JFfin (d1 : jdecoder) | JFerr (d1 : jdecoder) (e : Z).
+
+Definition jdec_fill (d : jdecoder) : jfill_res :=
+  if zlen (jd_buf d) =? 0 then
+    if jd_bytesdec d then JFfin d
+    else match jd_script d with
+         | [] => JFfin d
+         | (data, err) :: rest =>
+             let d1 := {| jd_p := jd_p d; jd_buf := data; jd_script := rest; jd_bytesdec := false |} in
+             if (zlen data =? 0) && negb (err =? 0) then (if err =? jeEOF then JFfin d1 else JFerr d1 err)
+             else JFbody d1
+         end
+  else JFbody d.
+
+Lemma jdec_next_S : forall f d s,
+  jdec_next (S f) pf d s =
+  match jdec_fill d with
+  | JFbody d1 => jdec_body f d1 s
+  | JFfin d1 => jdec_finalize pf d1 s
+  | JFerr d1 e => Ok (d1, s, e)
+  end.
+Proof.
+  intros f d s. cbn [jdec_next]. unfold jdec_fill, jdec_body.
+  destruct (zlen (jd_buf d) =? 0); [|reflexivity].
+  destruct (jd_bytesdec d); [reflexivity|].
+  destruct (jd_script d) as [|[data err] rest]; [reflexivity|]. cbv zeta.
+  destruct ((zlen data =? 0) && negb (err =? 0)); [|reflexivity].
+  destruct (err =? jeEOF); reflexivity.
+Qed.
+
+(* everything the decoder will still see *)
+Definition jtailb (d : jdecoder) : bytes :=
+  if jd_bytesdec d then [] else concat (map fst (jd_script d)).
+Definition jrem (d : jdecoder) : bytes := jd_buf d ++ jtailb d.
+
+Lemma zlen0_nil : forall (b : bytes), (zlen b =? 0) = true -> b = [].
+Proof. intros [|x b] H; [reflexivity|]. unfold zlen in H. cbn [length] in H. lia. Qed.
+
+Lemma jdec_fill_spec : forall d,
+  match jdec_fill d with
+  | JFbody d1 => jd_p d1 = jd_p d /\ jrem d1 = jrem d
+  | JFfin d1 => jd_p d1 = jd_p d /\ jd_buf d1 = [] /\ jrem d1 = jrem d /\
+                (jrem d = [] \/ exists r, jd_script d = ([], jeEOF) :: r /\ jd_script d1 = r /\ jd_bytesdec d = false)
+  | JFerr d1 e => jd_p d1 = jd_p d /\ e <> 0 /\ e <> jeEOF /\ exists r, jd_script d = ([], e) :: r
+  end.
+Proof.
+  intros d. unfold jdec_fill.
+  destruct (zlen (jd_buf d) =? 0) eqn:Eb; [|auto].
+  apply zlen0_nil in Eb.
+  destruct (jd_bytesdec d) eqn:Ebd.
+  { split; [reflexivity|]. split; [exact Eb|]. split; [reflexivity|]. left. unfold jrem, jtailb. rewrite Eb, Ebd. reflexivity. }
+  destruct (jd_script d) as [|[data err] rest] eqn:Es.
+  { split; [reflexivity|]. split; [exact Eb|]. split; [reflexivity|]. left. unfold jrem, jtailb. rewrite Eb, Ebd, Es. reflexivity. }
+  cbv zeta. destruct ((zlen data =? 0) && negb (err =? 0)) eqn:Ec.
+  - apply andb_true_iff in Ec. destruct Ec as [Ec1 Ec2]. apply zlen0_nil in Ec1. subst data.
+    apply negb_true_iff, Z.eqb_neq in Ec2.
+    destruct (err =? jeEOF) eqn:Ee.
+    + apply Z.eqb_eq in Ee. subst err. cbn [jd_p jd_buf jd_script]. split; [reflexivity|]. split; [reflexivity|].
+      split; [unfold jrem, jtailb; cbn [jd_buf jd_script jd_bytesdec]; rewrite Eb, Ebd, Es; reflexivity|].
+      right. exists rest. auto.
+    + apply Z.eqb_neq in Ee. cbn [jd_p]. split; [reflexivity|]. split; [exact Ec2|]. split; [exact Ee|]. eauto.
+  - cbn [jd_p]. split; [reflexivity|]. unfold jrem, jtailb. cbn [jd_buf jd_script jd_bytesdec].
+    rewrite Eb, Ebd, Es. cbn [map fst concat app]. reflexivity.
+Qed.
+
+(* reader errors are never the parser's internal "nil" code *)
+Definition jscript_ok (sc : list (bytes * Z)) : Prop := Forall (fun x => snd x <> jpnil) sc.
+
+Lemma jdec_fill_script : forall d, jscript_ok (jd_script d) ->
+  match jdec_fill d with
+  | JFbody d1 | JFfin d1 | JFerr d1 _ => jscript_ok (jd_script d1)
+  end.
+Proof.
+  intros d H. unfold jdec_fill.
+  destruct (zlen (jd_buf d) =? 0); [|exact H].
+  destruct (jd_bytesdec d); [exact H|].
+  destruct (jd_script d) as [|[data err] rest] eqn:Es; [rewrite Es; exact H|]. cbv zeta.
+  inversion H; subst.
+  destruct ((zlen data =? 0) && negb (err =? 0)); [destruct (err =? jeEOF)|]; cbn [jd_script]; assumption.
+Qed.
+
+(* ---------- (b) a Next that returns nil delivered at least one event, consumed input,
+   and left the parser idle ---------- *)
+Lemma jfeed_until_C : forall fuel p s b orig p' s' rest rep e,
+  W p -> jfeed_until fuel pf p s b orig = Ok (JS p' s' rest rep e) ->
+  exists L, s' = s_add s L /\ (e = jpnil -> rep = true -> L <> [] /\ jp_states p' = []).
+Proof.
+  induction fuel as [|f IH]; intros p s b orig p' s' rest rep e Hw H; [discriminate|].
+  cbn [jfeed_until] in H.
+  destruct (zlen b =? 0).
+  { inversion H; subst. exists []. rewrite s_add_nil. split; [reflexivity|]. intros _ K. discriminate K. }
+  pose proof (jstep_C p s b Hw) as C.
+  destruct (jstep pf p s b) as [p1 s1 r1 rep1 err|w] eqn:Hx; [|discriminate].
+  destruct C as (l & -> & _ & C).
+  rewrite (W_notfailed p Hw) in H.
+  destruct (jisnil err) eqn:Ee; cbn [negb] in H.
+  - apply jisnil_true' in Ee. subst err. destruct (C eq_refl) as (Hw1 & C1 & _).
+    destruct (rep1 && (zlen (jp_states p1) =? 0)) eqn:Er.
+    + inversion H; subst. exists l. split; [reflexivity|]. intros _ _.
+      apply andb_true_iff in Er. destruct Er as [Er1 Er2]. split; [apply C1; exact Er1|].
+      destruct (jp_states p') as [|c st]; [reflexivity|]. unfold zlen in Er2. cbn [length] in Er2. lia.
+    + destruct (IH _ _ _ _ _ _ _ _ _ Hw1 H) as (L & -> & HL).
+      exists (l ++ L). split; [apply s_add_add|]. intros He Hr. destruct (HL He Hr) as [HL1 HL2].
+      split; [|exact HL2]. destruct l; [exact HL1|discriminate].
+  - inversion H; subst. exists l. split; [reflexivity|]. intros ->. vm_compute in Ee. discriminate Ee.
+Qed.
+
+Lemma jfinalize_add : forall p s p' s' e, jfinalize pf p s = Some (p', s', e) ->
+  exists l, s' = s_add s l /\ (e = jpnil -> jp_cur p = jNumber -> l <> []).
+Proof.
+  intros p s p' s' e H. unfold jfinalize in H.
+  destruct (jp_cur p =? jNumber) eqn:Ec.
+  - destruct (report_number pf s (jp_lit p) (jp_isdbl p)) as [[s1 e1]|] eqn:Er; [|discriminate].
+    destruct (report_number_add _ _ _ _ _ Er) as (l & -> & _ & Hl).
+    destruct (jisnil e1) eqn:Ee; cbn [negb] in H.
+    + apply jisnil_true' in Ee. destruct (_ && _); inversion H; subst; exists l; auto.
+    + inversion H; subst. exists l. split; [reflexivity|]. intros ->. vm_compute in Ee. discriminate Ee.
+  - apply Z.eqb_neq in Ec. cbn [negb] in H.
+    destruct (_ && _); inversion H; subst; exists []; rewrite s_add_nil; (split; [reflexivity|]);
+      intros _ K; contradiction.
+Qed.
+
+Definition jmu (d : jdecoder) : nat := (2 * length (jrem d) + wgt (jp_cur (jd_p d)))%nat.
+
+Lemma jdec_finalize_nil : forall d s d' s',
+  W (jd_p d) -> inv (jd_p d) -> jdec_finalize pf d s = Ok (d', s', jpnil) ->
+  (exists L, s' = s_add s L /\ L <> []) /\ idle (jd_p d') /\ inv (jd_p d') /\
+  jd_buf d' = jd_buf d /\ jd_script d' = jd_script d /\ jd_bytesdec d' = jd_bytesdec d /\
+  wgt (jp_cur (jd_p d)) = 1%nat /\ wgt (jp_cur (jd_p d')) = 0%nat /\
+  jp_cur (jd_p d) = jNumber /\ jfinalize pf (jd_p d) s = Some (jd_p d', s', jpnil).
+Proof.
+  intros d s d' s' Hw Hi H. unfold jdec_finalize in H.
+  destruct (jfinalize pf (jd_p d) s) as [[[p1 s1] e]|] eqn:Ef; [|discriminate].
+  destruct (negb (jisnil e)) eqn:En.
+  { inversion H; subst. vm_compute in En. discriminate En. }
+  apply negb_false_iff, jisnil_true' in En. subst e.
+  destruct (jp_cur (jd_p d) =? jNumber) eqn:Ec; [|inversion H; ust; lia].
+  apply Z.eqb_eq in Ec. inversion H; subst d' s'. cbn [jd_p jd_buf jd_script jd_bytesdec].
+  destruct (jfinalize_add _ _ _ _ _ Ef) as (l & -> & Hl).
+  destruct (jfinalize_idle _ _ _ _ Hw Ef) as (Hidle & [(K & _)|(_ & Hp & _)]); [contradiction|].
+  split; [exists l; auto|]. split; [exact Hidle|].
+  inv_split Hi. destruct (jpop_ok _ Hst Her) as (Hi' & Hw' & _).
+  subst p1. split; [exact Hi'|]. repeat split; auto. rewrite Ec. reflexivity.
+Qed.
+
+Lemma idle_W' : forall p, idle p -> W p -> W p.
+Proof. auto. Qed.
+
+Theorem C18_json_next_value_partial : forall fuel d s d' s',
+  W (jd_p d) -> inv (jd_p d) -> jscript_ok (jd_script d) -> jdec_next fuel pf d s = Ok (d', s', jpnil) ->
+  (exists L, s' = s_add s L /\ L <> []) /\
+  jp_cur (jd_p d') = jStart /\ jp_states (jd_p d') = [] /\ jp_inesc (jd_p d') = false /\
+  inv (jd_p d') /\ (jmu d' < jmu d)%nat.
+Proof.
+  induction fuel as [|f IH]; intros d s d' s' Hw Hi Hsc H; [discriminate|].
+  rewrite jdec_next_S in H. pose proof (jdec_fill_spec d) as Hf.
+  pose proof (jdec_fill_script d Hsc) as Hsc1.
+  destruct (jdec_fill d) as [d1|d1|d1 e].
+  - (* feed the buffer *)
+    destruct Hf as [Hp Hr]. unfold jdec_body in H.
+    pose proof (wgt_le1 (jp_cur (jd_p d1))) as Hwg.
+    assert (Hi1 : inv (jd_p d1)) by (rewrite Hp; exact Hi).
+    assert (Hw1 : W (jd_p d1)) by (rewrite Hp; exact Hw).
+    destruct (jfeed_until_ok pf (jfeed_fuel (jd_buf d1)) (jd_p d1) s (jd_buf d1) (jd_buf d1)
+                (length (jp_lit (jd_p d1)) + length (jd_buf d1))%nat
+                (length (jp_states (jd_p d1)) + length (jd_buf d1))%nat Hi1)
+      as (p1 & s1 & rest & rep & err & Heq & _ & _ & Hn); [unfold jfeed_fuel; lia|lia|lia|].
+    rewrite Heq in H. cbv zeta in H.
+    destruct (jfeed_until_C _ _ _ _ _ _ _ _ _ _ Hw1 Heq) as (L1 & -> & HL1).
+    pose proof (fun E => jfeed_until_W _ _ _ _ _ _ _ _ _ _ Hw1 Heq E) as Hw2.
+    destruct (jisnil err) eqn:Ee; cbn [negb] in H; [|inversion H; subst; vm_compute in Ee; discriminate Ee].
+    apply jisnil_true' in Ee. subst err. destruct (Hn eq_refl) as (Hi' & _ & _ & Hle & Hlt).
+    assert (Hmu : forall d2, jd_p d2 = p1 -> jrem d2 = rest ++ jtailb d1 ->
+              (jmu d2 <= jmu d)%nat /\ (jd_buf d1 <> [] -> jmu d2 < jmu d)%nat).
+    { intros d2 E1 E2. unfold jmu. rewrite E1, E2, <- Hr, <- Hp. unfold jrem. rewrite !app_length.
+      split; [lia|]. intros Hb. specialize (Hlt Hb). lia. }
+    destruct rep.
+    + inversion H; subst d' s'. cbn [jd_p]. destruct (HL1 eq_refl eq_refl) as [HL2 HL3].
+      split; [exists L1; auto|].
+      destruct (Hw2 eq_refl) as (Hwf & Hie & _). rewrite HL3 in Hwf. cbn [wfs] in Hwf.
+      split; [exact Hwf|]. split; [exact HL3|].
+      split. { destruct (jp_inesc p1); [|reflexivity]. destruct (Hie eq_refl) as [K|K]; rewrite Hwf in K; discriminate K. }
+      split; [exact Hi'|].
+      match goal with |- (jmu ?d2 < _)%nat => destruct (Hmu d2 eq_refl eq_refl) as [_ Hs] end.
+      apply Hs. intros Eb. rewrite Eb in Heq. cbn in Heq. discriminate Heq.
+    + match type of H with jdec_next f pf ?d2 _ = _ =>
+        destruct (IH d2 _ _ _ (Hw2 eq_refl) Hi' Hsc1 H) as ((L2 & -> & HL2) & A & B & C & D & E);
+        destruct (Hmu d2 eq_refl eq_refl) as [Hs _] end.
+      split; [exists (L1 ++ L2); split; [apply s_add_add|destruct L1; [exact HL2|discriminate]]|].
+      split; [exact A|]. split; [exact B|]. split; [exact C|]. split; [exact D|]. lia.
+  - (* end of input: finalize *)
+    destruct Hf as (Hp & Hb & Hr & _).
+    assert (Hi1 : inv (jd_p d1)) by (rewrite Hp; exact Hi).
+    assert (Hw1 : W (jd_p d1)) by (rewrite Hp; exact Hw).
+    destruct (jdec_finalize_nil _ _ _ _ Hw1 Hi1 H) as (HL & (A & B & C) & Hi' & E1 & E2 & E3 & G1 & G2 & _).
+    split; [exact HL|]. split; [exact A|]. split; [exact B|]. split; [exact C|]. split; [exact Hi'|].
+    assert (Hrem : jrem d' = jrem d).
+    { rewrite <- Hr. unfold jrem, jtailb. rewrite E1, E2, E3. reflexivity. }
+    unfold jmu. rewrite G2, Hrem. rewrite <- Hp, G1. lia.
+  - inversion H; subst. destruct Hf as (_ & _ & _ & r & Hs). rewrite Hs in Hsc. inversion Hsc; subst.
+    exfalso. cbn [snd] in *. congruence.
+Qed.
+
+(* ---------------------------------------------------------------------- *)
+(* (c) script independence.  First: a step that delivers an event on the  *)
+(* input a does exactly the same on a ++ b and leaves b unread.           *)
+(* ---------------------------------------------------------------------- *)
+Definition Emit (b : bytes) (s : sink) (r whole : jsres) : Prop :=
+  match r with
+  | JS p1 s1 rest d e => s_n s1 <> s_n s -> ext b r whole
+  | JCrash _ => True
+  end.
+
+Lemma Emit_silent : forall b s p1 rest d e w, Emit b s (JS p1 s rest d e) w.
+Proof. intros. cbn [Emit]. intros H. congruence. Qed.
+
+Lemma Emit_ext : forall b s r w, ext b r w -> Emit b s r w.
+Proof. intros b s [p1 s1 rest d e|x] w H; cbn [Emit]; auto. Qed.
+
+Lemma step_kind_emit : forall p s a b kind ev,
+  0 <= jp_req p <= zlen kind ->
+  Emit b s (step_kind p s a kind ev) (step_kind p s (a ++ b) kind ev).
+Proof.
+  intros p s a b kind ev Hn.
+  rewrite (step_kind_spec pf p s a), (step_kind_spec pf p s (a ++ b)) by assumption. cbv zeta.
+  set (n := jp_req p) in *. set (suffix := skipn (length kind - Z.to_nat n) kind).
+  assert (Hsl : length suffix = Z.to_nat n).
+  { unfold suffix. rewrite skipn_length. unfold zlen in Hn. lia. }
+  rewrite zlen_app.
+  destruct (zlen a <? n) eqn:Ea.
+  - destruct (has_prefix a _); apply Emit_silent.
+  - replace (zlen a + zlen b <? n) with false by (pose proof (Zle_0_nat (length b)); unfold zlen in *; lia).
+    rewrite has_prefix_app.
+    rewrite (firstn_all2 (n := length a)) by (unfold zlen in *; lia).
+    rewrite (skipn_all2 (n := length a)) by (unfold zlen in *; lia).
+    rewrite has_prefix_nil, andb_true_r.
+    destruct (has_prefix a suffix); [|apply Emit_silent].
+    destruct (jvis s ev) as [s2 e]. apply Emit_ext.
+    rewrite skipn_app_le by (unfold zlen in *; lia). apply ext_same.
+Qed.
+
+Lemma step_string_emit : forall p s a b, a <> [] ->
+  Emit b s (step_string p s a) (step_string p s (a ++ b)).
+Proof.
+  intros p s a b Ha. unfold step_string. pose proof (do_string_app p a b Ha) as H.
+  destruct (do_string p a) as [p1|p1 c r|p1|w]; try apply Emit_silent; [|exact I].
+  rewrite H. destruct (jvis s _) as [s1 e]. apply Emit_ext, ext_same.
+Qed.
+
+Lemma step_dict_key_emit : forall p s a b, a <> [] ->
+  Emit b s (step_dict_key p s a) (step_dict_key p s (a ++ b)).
+Proof.
+  intros p s a b Ha. unfold step_dict_key. pose proof (do_string_app p a b Ha) as H.
+  destruct (do_string p a) as [p1|p1 c r|p1|w]; try apply Emit_silent; [|exact I].
+  rewrite H. destruct (jvis s _) as [s1 e]. apply Emit_ext, ext_same.
+Qed.
+
+Lemma step_number_emit : forall p s a b,
+  Emit b s (step_number pf p s a) (step_number pf p s (a ++ b)).
+Proof.
+  intros p s a b.
+  destruct (scan_number a (jp_isdbl p) 0) as [[i|] d] eqn:Es.
+  - rewrite (step_number_app_found pf p s a b i d Es). apply Emit_ext, ext_app.
+  - destruct (step_number_app_more pf p s a b d Es) as [H1 _]. rewrite H1. apply Emit_silent.
+Qed.
+
+Lemma end_container_emit : forall p s c r b ev,
+  Emit b s (end_container p s (c :: r) ev) (end_container p s (c :: r ++ b) ev).
+Proof. intros. unfold end_container. destruct (jvis s ev) as [s1 e]. apply Emit_ext, ext_same. Qed.
+
+Lemma step_value_emit : forall p s a b ret,
+  Emit b s (step_value pf p s a ret) (step_value pf p s (a ++ b) ret).
+Proof.
+  intros p s a b ret. unfold step_value at 1 2.
+  destruct (trim_left a) as [|c r] eqn:Et; [apply Emit_silent|].
+  rewrite (trim_left_app_cons _ _ _ _ Et).
+  destruct (c =? 123). { destruct (jvis s _) as [s1 e]. apply Emit_ext, ext_same. }
+  destruct (c =? 91). { destruct (jvis s _) as [s1 e]. apply Emit_ext, ext_same. }
+  destruct (c =? 110). { apply step_kind_emit. js. unfold zlen, kNull. cbn [length]. lia. }
+  destruct (c =? 102). { apply step_kind_emit. js. unfold zlen, kFalse. cbn [length]. lia. }
+  destruct (c =? 116). { apply step_kind_emit. js. unfold zlen, kTrue. cbn [length]. lia. }
+  destruct (c =? 34).
+  { change (c :: r ++ b) with ((c :: r) ++ b). apply step_string_emit. discriminate. }
+  destruct (_ || _).
+  { change (c :: r ++ b) with ((c :: r) ++ b). apply step_number_emit. }
+  apply Emit_silent.
+Qed.
+
+Lemma Emit_norep : forall b s r w,
+  Emit b s r w ->
+  Emit b s (match r with JS p1 s1 r0 _ e => JS p1 s1 r0 false e | JCrash x => JCrash x end)
+           (match w with JS p1 s1 r0 _ e => JS p1 s1 r0 false e | JCrash x => JCrash x end).
+Proof.
+  intros b s [p1 s1 r1 d1 e1|x] [p2 s2 r2 d2 e2|y]; cbn [Emit ext]; auto.
+Qed.
+
+Lemma jstep_emit : forall p s a b, inv p -> a <> [] ->
+  Emit b s (jstep pf p s a) (jstep pf p s (a ++ b)).
+Proof.
+  intros p s a b Hi Ha. inv_split Hi.
+  destruct (cur_cases (jp_cur p)) as
+    [Hc|[Hc|[Hc|[Hc|[Hc|[Hc|[Hc|[Hc|[Hc|[Hc|[Hc|[Hc|[Hc|[Hc|[Hc|[Hc|Hc]]]]]]]]]]]]]]]].
+  - unfold jstep. rewrite Hc. change (jFailed =? jFailed) with true. cbv iota. apply Emit_silent.
+  - rewrite !(jstep_start pf p s _ Hc). apply step_value_emit.
+  - rewrite !(jstep_arr pf p s _ Hc). unfold step_array.
+    destruct (trim_left a) as [|c r] eqn:Et; [apply Emit_silent|].
+    rewrite (trim_left_app_cons _ _ _ _ Et).
+    destruct (c =? 93); [apply end_container_emit|apply Emit_silent].
+  - rewrite !(jstep_arrvalue pf p s _ Hc).
+    pose proof (step_value_emit p s a b jArrNext) as H. apply Emit_norep in H.
+    destruct (step_value pf p s a jArrNext), (step_value pf p s (a ++ b) jArrNext); exact H.
+  - rewrite !(jstep_arrnext pf p s _ Hc). unfold step_arr_value_end.
+    destruct (trim_left a) as [|c r] eqn:Et; [apply Emit_silent|].
+    rewrite (trim_left_app_cons _ _ _ _ Et).
+    destruct (c =? 93); [apply end_container_emit|]. destruct (c =? 44); apply Emit_silent.
+  - rewrite !(jstep_dict pf p s _ Hc). unfold step_dict.
+    destruct (trim_left a) as [|c r] eqn:Et; [apply Emit_silent|].
+    rewrite (trim_left_app_cons _ _ _ _ Et).
+    destruct (c =? 125); [cbn [negb]; apply end_container_emit|]. destruct (c =? 34); apply Emit_silent.
+  - rewrite !(jstep_dictfield pf p s _ Hc). apply step_dict_key_emit; assumption.
+  - rewrite !(jstep_dictnext pf p s _ Hc). unfold step_dict.
+    destruct (trim_left a) as [|c r] eqn:Et; [apply Emit_silent|].
+    rewrite (trim_left_app_cons _ _ _ _ Et).
+    destruct (c =? 125); [cbn [negb]; apply Emit_silent|]. destruct (c =? 34); apply Emit_silent.
+  - rewrite !(jstep_dictvalue pf p s _ Hc). apply step_value_emit.
+  - rewrite !(jstep_sep pf p s _ Hc).
+    destruct (trim_left a) as [|c r] eqn:Et; [apply Emit_silent|].
+    rewrite (trim_left_app_cons _ _ _ _ Et). apply Emit_silent.
+  - rewrite !(jstep_dictend pf p s _ Hc). unfold step_dict_value_end.
+    destruct (trim_left a) as [|c r] eqn:Et; [apply Emit_silent|].
+    rewrite (trim_left_app_cons _ _ _ _ Et).
+    destruct (c =? 125); [apply end_container_emit|]. destruct (c =? 44); apply Emit_silent.
+  - rewrite !(jstep_null pf p s _ Hc). apply step_kind_emit. unfold zlen, kNull. cbn [length]. lia.
+  - rewrite !(jstep_true pf p s _ Hc). apply step_kind_emit. unfold zlen, kTrue. cbn [length]. lia.
+  - rewrite !(jstep_false pf p s _ Hc). apply step_kind_emit. unfold zlen, kFalse. cbn [length]. lia.
+  - rewrite !(jstep_string pf p s _ Hc). apply step_string_emit; assumption.
+  - rewrite !(jstep_number pf p s _ Hc). apply step_number_emit.
+  - rewrite !(jstep_other pf p s _ Hc). apply Emit_silent.
+Qed.
+
+(* the dichotomy of ChunkProofs.v, sharpened: in its second case the step on a was silent *)
+Lemma jstep_dich2 : forall p s a b, inv p -> W p -> a <> [] ->
+  match jstep pf p s a with
+  | JCrash _ => True
+  | JS p1 s1 rest d e =>
+      ext b (JS p1 s1 rest d e) (jstep pf p s (a ++ b)) \/
+      (rest = [] /\ e = jpnil /\ s1 = s /\ ext [] (jstep pf p1 s b) (jstep pf p s (a ++ b)))
+  end.
+Proof.
+  intros p s a b Hi Hw Ha.
+  pose proof (jstep_dich pf p s a b Hi Ha) as D.
+  pose proof (jstep_emit p s a b Hi Ha) as E.
+  pose proof (jstep_C p s a Hw) as C.
+  destruct (jstep pf p s a) as [p1 s1 rest d e|w]; [|exact I].
+  cbn [Dich] in D. cbn [Emit] in E. destruct C as (l & Hl & Hl1 & _).
+  destruct D as [D|(D1 & D2 & D3)]; [left; exact D|].
+  destruct l as [|x l].
+  - rewrite s_add_nil in Hl. subst s1. right. auto.
+  - left. apply E. subst s1. cbn [s_add s_n length]. lia.
+Qed.
+
+Lemma zlen0_nil' : forall A (l : list A), (zlen l =? 0) = true -> l = [].
+Proof. intros A [|x l] H; [reflexivity|]. unfold zlen in H. cbn [length] in H. lia. Qed.
+
+(* ---------- feedUntil without fuel: one call of Next's inner loop ---------- *)
+(* "a top-level value has just been completed": decided by the parser and the
+   visitor alone (cf. jstep_C), so it is the same for a and a ++ b *)
+Definition tdone (p1 : jparser) (s s1 : sink) : Prop := jp_states p1 = [] /\ s_n s1 <> s_n s.
+
+Lemma tdone_dec : forall p1 s s1, tdone p1 s s1 \/ ~ tdone p1 s s1.
+Proof.
+  intros p1 s s1. unfold tdone. destruct (jp_states p1) as [|c l].
+  - destruct (Nat.eq_dec (s_n s1) (s_n s)) as [E|E]; [right; intros [_ H]; contradiction|left; auto].
+  - right. intros [H _]. discriminate H.
+Qed.
+
+Lemma rep1_char : forall p s b p1 s1 rest d,
+  W p -> jstep pf p s b = JS p1 s1 rest d jpnil ->
+  (d && (zlen (jp_states p1) =? 0) = true <-> tdone p1 s s1).
+Proof.
+  intros p s b p1 s1 rest d Hw H. pose proof (jstep_C p s b Hw) as C. rewrite H in C.
+  destruct C as (l & -> & _ & C). destruct (C eq_refl) as (_ & C1 & C2).
+  unfold tdone. cbn [s_add s_n]. split.
+  - intros E. apply andb_true_iff in E. destruct E as [E1 E2].
+    split; [apply zlen0_nil'; exact E2|].
+    specialize (C1 E1). destruct l; [congruence|cbn [length]; lia].
+  - intros [E1 E2]. assert (Hl : l <> []) by (intros ->; cbn [length] in E2; lia).
+    rewrite E1. cbn. rewrite andb_true_r. destruct d; [reflexivity|]. exfalso. apply (C2 eq_refl Hl). exact E1.
+Qed.
+
+Definition jures := (jparser * sink * bytes * bool * Z)%type.
+
+Inductive JU : jparser -> sink -> bytes -> jures -> Prop :=
+| JU_err : forall p s b p1 s1 rest d e,
+    jstep pf p s b = JS p1 s1 rest d e -> e <> jpnil -> JU p s b (p1, s1, rest, d, e)
+| JU_done : forall p s b p1 s1 rest d,
+    jstep pf p s b = JS p1 s1 rest d jpnil -> tdone p1 s s1 -> JU p s b (p1, s1, rest, true, jpnil)
+| JU_cont : forall p s b p1 s1 rest d r,
+    jstep pf p s b = JS p1 s1 rest d jpnil -> ~ tdone p1 s s1 -> rest <> [] ->
+    JU p1 s1 rest r -> JU p s b r
+| JU_stop : forall p s b p1 s1 d,
+    jstep pf p s b = JS p1 s1 [] d jpnil -> ~ tdone p1 s s1 -> JU p s b (p1, s1, [], false, jpnil).
+
+Lemma jfeed_until_JU : forall n p s b orig p1 s1 rest d e,
+  inv p -> W p -> b <> [] ->
+  jfeed_until n pf p s b orig = Ok (JS p1 s1 rest d e) -> JU p s b (p1, s1, rest, d, e).
+Proof.
+  induction n as [|n IH]; intros p s b orig p1 s1 rest d e Hi Hw Hb H; [discriminate|].
+  cbn [jfeed_until] in H. rewrite (zlen_eqb0 b Hb) in H.
+  destruct (jstep pf p s b) as [pa sa ra da ea|w] eqn:E; [|discriminate].
+  rewrite (W_notfailed p Hw) in H.
+  destruct (jisnil ea) eqn:En; cbn [negb] in H.
+  - apply jisnil_true in En. subst ea.
+    pose proof (rep1_char _ _ _ _ _ _ _ Hw E) as Hc.
+    destruct (da && (zlen (jp_states pa) =? 0)) eqn:Er.
+    + inversion H; subst. eapply JU_done; [exact E|]. apply Hc. reflexivity.
+    + assert (Hnd : ~ tdone pa s sa) by (intros K; apply Hc in K; discriminate K).
+      destruct ra as [|c ra'].
+      * destruct n as [|n']; [discriminate|]. cbn [jfeed_until] in H.
+        change (zlen (@nil Z) =? 0) with true in H. cbv iota in H. inversion H; subst.
+        eapply JU_stop; eauto.
+      * eapply JU_cont; [exact E|exact Hnd|discriminate|].
+        eapply IH; [eapply jstep_inv; eauto|eapply jstep_W; eauto|discriminate|exact H].
+  - apply jisnil_false in En. inversion H; subst. eapply JU_err; eauto.
+Qed.
+
+Lemma JU_det : forall p s b r, JU p s b r -> forall r', JU p s b r' -> r = r'.
+Proof.
+  induction 1 as [p s b p1 s1 rest d e E Hn | p s b p1 s1 rest d E Ht
+                 | p s b p1 s1 rest d r E Ht Hr _ IH | p s b p1 s1 d E Ht];
+    intros r' H'; inversion H'; subst;
+    match goal with H : jstep pf _ _ _ = _ |- _ => rewrite E in H; inversion H; subst end;
+    try congruence; try contradiction; auto.
+Qed.
+
+Lemma JU_short : forall p s b p1 s1 rest,
+  JU p s b (p1, s1, rest, false, jpnil) -> rest = [].
+Proof.
+  intros p s b p1 s1 rest H. remember (p1, s1, rest, false, jpnil) as r eqn:Hr.
+  induction H as [p s b pa sa ra d e E Hn | p s b pa sa ra d E Ht
+                 | p s b pa sa ra d r E Ht Hra _ IH | p s b pa sa d E Ht].
+  - inversion Hr; subst. congruence.
+  - inversion Hr.
+  - apply IH. exact Hr.
+  - inversion Hr; subst. reflexivity.
+Qed.
+
+Lemma JU_inv : forall p s b r, JU p s b r -> inv p -> W p -> b <> [] ->
+  snd r = jpnil -> inv (fst (fst (fst (fst r)))) /\ W (fst (fst (fst (fst r)))).
+Proof.
+  induction 1 as [p s b p1 s1 rest d e E Hn | p s b p1 s1 rest d E Ht
+                 | p s b p1 s1 rest d r E Ht Hr _ IH | p s b p1 s1 d E Ht]; intros Hi Hw Hb He; cbn [fst snd] in *.
+  - congruence.
+  - split; [eapply jstep_inv; eauto|eapply jstep_W; eauto].
+  - apply IH; auto; [eapply jstep_inv; eauto|eapply jstep_W; eauto].
+  - split; [eapply jstep_inv; eauto|eapply jstep_W; eauto].
+Qed.
+
+(* same visitor, same error; parser (modulo the dead jp_req), rest and done flag
+   unless an error occurred *)
+Definition simu (r r' : jures) : Prop :=
+  let '(p, s, rest, d, e) := r in let '(p', s', rest', d', e') := r' in
+  s = s' /\ e = e' /\ (e = jpnil -> peq p p' /\ rest = rest' /\ d = d').
+
+Lemma simu_refl : forall r, simu r r.
+Proof. intros [[[[p s] rest] d] e]. cbn. auto using peq_refl. Qed.
+
+Lemma simu_trans : forall r1 r2 r3, simu r1 r2 -> simu r2 r3 -> simu r1 r3.
+Proof.
+  intros [[[[p1 s1] t1] d1] e1] [[[[p2 s2] t2] d2] e2] [[[[p3 s3] t3] d3] e3] (A1 & A2 & A3) (B1 & B2 & B3).
+  cbn [simu]. split; [congruence|]. split; [congruence|]. intros E.
+  destruct (A3 E) as (X1 & X2 & X3). destruct B3 as (Y1 & Y2 & Y3); [congruence|].
+  split; [eapply peq_trans; eauto|]. split; congruence.
+Qed.
+
+Lemma peq_states : forall p q, peq p q -> jp_states p = jp_states q.
+Proof. intros p q H. apply H. Qed.
+
+Lemma JU_peq : forall p s b r, JU p s b r -> forall q, peq p q -> inv p -> b <> [] ->
+  exists r', JU q s b r' /\ simu r r'.
+Proof.
+  induction 1 as [p s b p1 s1 rest d e E Hn | p s b p1 s1 rest d E Ht
+                 | p s b p1 s1 rest d r E Ht Hr HR IH | p s b p1 s1 d E Ht];
+    intros q Hq Hi Hb;
+    pose proof (jstep_peq pf p q s b Hq (inv_states p Hi)) as Hp; rewrite E in Hp;
+    destruct (jstep pf q s b) as [p2 s2 rest2 d2 e2|w] eqn:Eq; cbn [rpeq] in Hp; try contradiction;
+    destruct Hp as (Hp1 & <- & <- & <- & <-).
+  - exists (p2, s1, rest, d, e). split; [eapply JU_err; eauto|].
+    cbn [simu]. split; [reflexivity|]. split; [reflexivity|]. intros; congruence.
+  - exists (p2, s1, rest, true, jpnil). split; [|cbn [simu]; auto].
+    eapply JU_done; [exact Eq|]. unfold tdone in *. rewrite <- (peq_states _ _ Hp1). exact Ht.
+  - assert (Hi1 : inv p1) by (eapply jstep_inv; eauto).
+    destruct (IH p2 Hp1 Hi1 Hr) as (r' & R' & S').
+    exists r'. split; [|exact S'].
+    eapply JU_cont; [exact Eq| |exact Hr|exact R'].
+    unfold tdone in *. rewrite <- (peq_states _ _ Hp1). exact Ht.
+  - exists (p2, s1, [], false, jpnil). split; [|cbn [simu]; auto].
+    eapply JU_stop; [exact Eq|]. unfold tdone in *. rewrite <- (peq_states _ _ Hp1). exact Ht.
+Qed.
+
+Lemma JU_ext_nil : forall p1 b p s x r,
+  inv p1 -> b <> [] ->
+  ext [] (jstep pf p1 s b) (jstep pf p s x) -> JU p1 s b r ->
+  exists r', JU p s x r' /\ simu r r'.
+Proof.
+  intros p1 b p s x r Hi Hb X H.
+  inversion H; subst;
+    match goal with E : jstep pf p1 s b = _ |- _ => rewrite E in X; rename E into E1 end;
+    destruct (jstep pf p s x) as [pw sw restw dw ew|w] eqn:Wh; cbn [ext] in X;
+    try contradiction; destruct X as (<- & <- & X).
+  - eexists; split; [eapply JU_err; eauto|].
+    cbn [simu]. split; [reflexivity|]. split; [reflexivity|]. intros; congruence.
+  - destruct (X eq_refl) as (Hq & ->). rewrite app_nil_r in Wh.
+    exists (pw, s1, rest, true, jpnil). split; [|cbn [simu]; auto].
+    eapply JU_done; [exact Wh|]. unfold tdone in *. rewrite <- (peq_states _ _ Hq). assumption.
+  - destruct (X eq_refl) as (Hq & ->). rewrite app_nil_r in Wh.
+    assert (Hi2 : inv p2) by (exact (jstep_inv pf _ _ _ _ _ _ _ Hi Hb E1)).
+    match goal with HR : JU p2 _ _ r |- _ =>
+      destruct (JU_peq _ _ _ _ HR pw Hq Hi2) as (r' & R' & S'); [assumption|] end.
+    exists r'. split; [|exact S'].
+    eapply JU_cont; [exact Wh| |assumption|exact R'].
+    unfold tdone in *. rewrite <- (peq_states _ _ Hq). assumption.
+  - destruct (X eq_refl) as (Hq & ->). cbn [app] in Wh.
+    exists (pw, s1, [], false, jpnil). split; [|cbn [simu]; auto].
+    eapply JU_stop; [exact Wh|]. unfold tdone in *. rewrite <- (peq_states _ _ Hq). assumption.
+Qed.
+
+(* feedUntil on a ++ b versus feedUntil on a, then (if more input is needed) on b *)
+Lemma JU_merge : forall p s a r, JU p s a r ->
+  inv p -> W p -> a <> [] -> forall b, b <> [] ->
+  let '(p1, s1, rest, d, e) := r in
+  (e <> jpnil -> exists p1' rest' d', JU p s (a ++ b) (p1', s1, rest', d', e)) /\
+  (e = jpnil -> d = true -> exists p1', peq p1 p1' /\ JU p s (a ++ b) (p1', s1, rest ++ b, true, jpnil)) /\
+  (e = jpnil -> d = false ->
+     forall r2, JU p1 s1 b r2 -> exists r2', JU p s (a ++ b) r2' /\ simu r2 r2').
+Proof.
+  induction 1 as [p s a p1 s1 rest d e E Hn | p s a p1 s1 rest d E Ht
+                 | p s a p1 s1 rest d r E Ht Hr HR IH | p s a p1 s1 d E Ht];
+    intros Hi Hw Ha b Hb;
+    pose proof (jstep_dich2 p s a b Hi Hw Ha) as D; rewrite E in D.
+  - (* error *)
+    split; [|split; intros; congruence]. intros _.
+    destruct D as [D|(_ & D & _)]; [|congruence].
+    destruct (jstep pf p s (a ++ b)) as [p2 s2 rest2 d2 e2|w] eqn:Wh; cbn [ext] in D; [|contradiction].
+    destruct D as (<- & <- & _). exists p2, rest2, d2. eapply JU_err; eauto.
+  - (* done *)
+    split; [congruence|]. split; [|discriminate]. intros _ _.
+    destruct D as [D|(_ & _ & D & _)]; [|exfalso; destruct Ht as [_ Ht]; subst; congruence].
+    destruct (jstep pf p s (a ++ b)) as [p2 s2 rest2 d2 e2|w] eqn:Wh; cbn [ext] in D; [|contradiction].
+    destruct D as (<- & <- & D). destruct (D eq_refl) as (Hq & ->).
+    exists p2. split; [exact Hq|]. eapply JU_done; [exact Wh|].
+    unfold tdone in *. rewrite <- (peq_states _ _ Hq). exact Ht.
+  - (* continue *)
+    destruct D as [D|(D & _)]; [|congruence].
+    destruct (jstep pf p s (a ++ b)) as [p2 s2 rest2 d2 e2|w] eqn:Wh; cbn [ext] in D; [|contradiction].
+    destruct D as (<- & <- & D). destruct (D eq_refl) as (Hq & ->).
+    assert (Hi1 : inv p1) by (exact (jstep_inv pf _ _ _ _ _ _ _ Hi Ha E)).
+    assert (Hw1 : W p1) by (exact (jstep_W _ _ _ _ _ _ _ Hw E)).
+    assert (Ht2 : ~ tdone p2 s s1) by (unfold tdone in *; rewrite <- (peq_states _ _ Hq); exact Ht).
+    assert (Hrb : rest ++ b <> []) by (apply app_nonnil; exact Hr).
+    specialize (IH Hi1 Hw1 Hr b Hb).
+    destruct r as [[[[pr sr] restr] dr] er]. destruct IH as (IH1 & IH2 & IH3).
+    split; [|split].
+    + intros He. destruct (IH1 He) as (p1' & rest' & d' & R1).
+      destruct (JU_peq _ _ _ _ R1 p2 Hq Hi1 Hrb) as ([[[[pa sa] ra] da] ea] & R2 & S2).
+      cbn [simu] in S2. destruct S2 as (<- & <- & _).
+      exists pa, ra, da. eapply JU_cont; eauto.
+    + intros He Hd. destruct (IH2 He Hd) as (p1' & Hq1 & R1).
+      destruct (JU_peq _ _ _ _ R1 p2 Hq Hi1 Hrb) as ([[[[pa sa] ra] da] ea] & R2 & S2).
+      cbn [simu] in S2. destruct S2 as (<- & <- & S2). destruct (S2 eq_refl) as (Hq2 & <- & <-).
+      exists pa. split; [eapply peq_trans; eauto|]. eapply JU_cont; eauto.
+    + intros He Hd r2 R2. destruct (IH3 He Hd r2 R2) as (r2' & R2' & S2).
+      destruct (JU_peq _ _ _ _ R2' p2 Hq Hi1 Hrb) as (r2'' & R3 & S3).
+      exists r2''. split; [eapply JU_cont; eauto|eapply simu_trans; eauto].
+  - (* stop: a is used up inside a value *)
+    split; [congruence|]. split; [discriminate|]. intros _ _ r2 R2.
+    assert (Hi1 : inv p1) by (exact (jstep_inv pf _ _ _ _ _ _ _ Hi Ha E)).
+    destruct D as [D|(_ & _ & -> & D)].
+    + destruct (jstep pf p s (a ++ b)) as [p2 s2 rest2 d2 e2|w] eqn:Wh; cbn [ext] in D; [|contradiction].
+      destruct D as (<- & <- & D). destruct (D eq_refl) as (Hq & ->). cbn [app] in Wh.
+      destruct (JU_peq _ _ _ _ R2 p2 Hq Hi1 Hb) as (r2' & R3 & S3).
+      exists r2'. split; [|exact S3]. eapply JU_cont; [exact Wh| |exact Hb|exact R3].
+      unfold tdone in *. rewrite <- (peq_states _ _ Hq). exact Ht.
+    + eapply JU_ext_nil; eauto.
+Qed.
+
+(* ---------- one Next call as a function of all bytes still to come ---------- *)
+(* Decoder.finalize: the verdict of Next at the end of the input *)
+Definition jfinN (p : jparser) (s : sink) : option (jparser * sink * Z) :=
+  match jfinalize pf p s with
+  | None => None
+  | Some (p1, s1, e) =>
+      Some (p1, s1, if negb (jisnil e) then e else if jp_cur p =? jNumber then jpnil else jeEOF)
+  end.
+
+Lemma jdec_finalize_finN : forall d s d' s' e,
+  jdec_finalize pf d s = Ok (d', s', e) ->
+  jfinN (jd_p d) s = Some (jd_p d', s', e) /\
+  jd_buf d' = jd_buf d /\ jd_script d' = jd_script d /\ jd_bytesdec d' = jd_bytesdec d.
+Proof.
+  intros d s d' s' e H. unfold jdec_finalize in H. unfold jfinN.
+  destruct (jfinalize pf (jd_p d) s) as [[[p1 s1] e1]|]; [|discriminate].
+  destruct (negb (jisnil e1)); [inversion H; subst; cbn; auto|].
+  destruct (jp_cur (jd_p d) =? jNumber); inversion H; subst; cbn; auto.
+Qed.
+
+Definition jnres := (jparser * sink * bytes * Z)%type.
+
+(* [NextW p s T r]: Next on a decoder in parser state p whose remaining input
+   (buffer and everything the reader will still deliver) is T *)
+Inductive NextW : jparser -> sink -> bytes -> jnres -> Prop :=
+| NW_eof : forall p s p1 s1 e, jfinN p s = Some (p1, s1, e) -> NextW p s [] (p1, s1, [], e)
+| NW_err : forall p s T p1 s1 rest d e,
+    T <> [] -> JU p s T (p1, s1, rest, d, e) -> e <> jpnil -> NextW p s T (p1, s1, rest, e)
+| NW_done : forall p s T p1 s1 rest,
+    T <> [] -> JU p s T (p1, s1, rest, true, jpnil) -> NextW p s T (p1, s1, rest, jpnil)
+| NW_short : forall p s T p1 s1 p2 s2 e,
+    T <> [] -> JU p s T (p1, s1, [], false, jpnil) -> jfinN p1 s1 = Some (p2, s2, e) ->
+    NextW p s T (p2, s2, [], e).
+
+Lemma NextW_det : forall p s T r r', NextW p s T r -> NextW p s T r' -> r = r'.
+Proof.
+  intros p s T r r' H H'.
+  inversion H; subst; inversion H'; subst; try congruence;
+    match goal with
+    | H1 : JU _ _ _ _, H2 : JU _ _ _ _ |- _ => pose proof (JU_det _ _ _ _ H1 _ H2) as E; inversion E; subst
+    end; try congruence; try reflexivity.
+Qed.
+
+Definition simW (r r' : jnres) : Prop :=
+  let '(p, s, rest, e) := r in let '(p', s', rest', e') := r' in
+  s = s' /\ e = e' /\ (e = jpnil -> peq p p' /\ rest = rest').
+
+Lemma simW_refl : forall r, simW r r.
+Proof. intros [[[p s] rest] e]. cbn. auto using peq_refl. Qed.
+Lemma simW_sym : forall r r', simW r r' -> simW r' r.
+Proof.
+  intros [[[p s] rest] e] [[[p' s'] rest'] e'] (A & B & C). cbn [simW]. subst.
+  split; [reflexivity|]. split; [reflexivity|]. intros E. destruct (C E). split; [apply peq_sym; assumption|congruence].
+Qed.
+Lemma simW_trans : forall r1 r2 r3, simW r1 r2 -> simW r2 r3 -> simW r1 r3.
+Proof.
+  intros [[[p1 s1] t1] e1] [[[p2 s2] t2] e2] [[[p3 s3] t3] e3] (A1 & A2 & A3) (B1 & B2 & B3).
+  cbn [simW]. split; [congruence|]. split; [congruence|]. intros E.
+  destruct (A3 E) as (X1 & X2). destruct B3 as (Y1 & Y2); [congruence|].
+  split; [eapply peq_trans; eauto|congruence].
+Qed.
+
+(* finalize on parsers that differ in jp_req only *)
+Lemma peq_cur : forall p q, peq p q -> jp_cur p = jp_cur q.
+Proof. intros p q H. apply H. Qed.
+
+Lemma jpop_not_kind : forall p, Forall ret_state (jp_states p) -> is_kind (jp_cur (jpop p)) = false.
+Proof.
+  intros p HF. unfold jpop. destruct (jp_states p) as [|c r]; [reflexivity|].
+  inversion HF; subst. cbn [jp_cur]. apply ret_not_kind. assumption.
+Qed.
+
+Lemma jfinN_peq : forall p q s p1 s1 e, inv p -> peq p q -> jfinN p s = Some (p1, s1, e) ->
+  exists q1, jfinN q s = Some (q1, s1, e) /\ (e = jpnil -> peq p1 q1).
+Proof.
+  intros p q s p1 s1 e Hi Hq H. unfold jfinN in *.
+  destruct (jfinalize pf p s) as [[[pa sa] ea]|] eqn:Ef; [|discriminate].
+  rewrite (peq_setreq _ _ Hq), jfinalize_req, Ef. rewrite <- (peq_setreq _ _ Hq).
+  rewrite <- (peq_cur _ _ Hq). inversion H; subst. eexists. split; [reflexivity|].
+  intros He. destruct (negb (jisnil ea)) eqn:En; [apply negb_true_iff in En; subst; vm_compute in En; discriminate En|].
+  apply negb_false_iff, jisnil_true' in En. subst ea.
+  destruct (jp_cur p =? jNumber) eqn:Ec; [|vm_compute in He; discriminate He].
+  apply peq_req. unfold jfinalize in Ef. rewrite Ec in Ef.
+  destruct (report_number pf s _ _) as [[s2 e2]|]; [|discriminate].
+  destruct (jisnil e2) eqn:E2; cbn [negb] in Ef; [|inversion Ef; subst; vm_compute in E2; discriminate E2].
+  destruct (_ && _); inversion Ef; subst; apply jpop_not_kind; apply Hi.
+Qed.
+
+Lemma W_peq : forall p q, peq p q -> W p -> W q.
+Proof.
+  intros p q (H1 & H2 & H3 & H4 & _) Hw. unfold W in *. rewrite <- H1, <- H2, <- H3, <- H4. exact Hw.
+Qed.
+
+Lemma inv_peq : forall p q, peq p q -> inv p -> inv q.
+Proof.
+  intros p q (H1 & H2 & H3 & H4 & H5 & H6 & H7) Hi. inv_split Hi. unfold inv.
+  rewrite <- H1, <- H2, <- H3, <- H6.
+  split; [exact Hst|]. split; [exact Her|]. split; [exact Hnum|].
+  split.
+  - intros K. rewrite <- H7; [apply Hk3; exact K|]. unfold is_kind. destruct K as [K|K]; rewrite K; reflexivity.
+  - intros K. rewrite <- H7; [apply Hk4; exact K|]. unfold is_kind. rewrite K. reflexivity.
+Qed.
+
+Lemma JU_inv1 : forall p s b r, JU p s b r -> inv p -> b <> [] ->
+  snd r = jpnil -> inv (fst (fst (fst (fst r)))).
+Proof.
+  induction 1 as [p s b p1 s1 rest d e E Hn | p s b p1 s1 rest d E Ht
+                 | p s b p1 s1 rest d r E Ht Hr _ IH | p s b p1 s1 d E Ht]; intros Hi Hb He; cbn [fst snd] in *.
+  - congruence.
+  - eapply jstep_inv; eauto.
+  - apply IH; auto. eapply jstep_inv; eauto.
+  - eapply jstep_inv; eauto.
+Qed.
+
+Lemma NextW_peq : forall p s T r q, NextW p s T r -> peq p q -> inv p ->
+  exists r', NextW q s T r' /\ simW r r'.
+Proof.
+  intros p s T r q H Hq Hi. inversion H; subst.
+  - destruct (jfinN_peq _ _ _ _ _ _ Hi Hq H0) as (q1 & F & P).
+    exists (q1, s1, [], e). split; [apply NW_eof; exact F|]. cbn [simW]. auto.
+  - destruct (JU_peq _ _ _ _ H1 q Hq Hi H0) as ([[[[pa sa] ra] da] ea] & R & S).
+    cbn [simu] in S. destruct S as (<- & <- & _).
+    eexists. split; [eapply NW_err; eauto|]. cbn [simW]. split; [reflexivity|]. split; [reflexivity|]. intros; congruence.
+  - destruct (JU_peq _ _ _ _ H1 q Hq Hi H0) as ([[[[pa sa] ra] da] ea] & R & S).
+    cbn [simu] in S. destruct S as (<- & <- & S). destruct (S eq_refl) as (P & <- & <-).
+    eexists. split; [eapply NW_done; eauto|]. cbn [simW]. auto.
+  - destruct (JU_peq _ _ _ _ H1 q Hq Hi H0) as ([[[[pa sa] ra] da] ea] & R & S).
+    cbn [simu] in S. destruct S as (<- & <- & S). destruct (S eq_refl) as (P & <- & <-).
+    pose proof (JU_inv1 _ _ _ _ H1 Hi H0 eq_refl) as Hi1. cbn [fst] in Hi1.
+    destruct (jfinN_peq _ _ _ _ _ _ Hi1 P H2) as (q2 & F & P2).
+    eexists. split; [eapply NW_short; eauto|]. cbn [simW]. auto.
+Qed.
+
+Lemma NextW_merge_short : forall p s a p1 s1 T r2,
+  JU p s a (p1, s1, [], false, jpnil) -> inv p -> W p -> a <> [] ->
+  NextW p1 s1 T r2 -> exists r2', NextW p s (a ++ T) r2' /\ simW r2 r2'.
+Proof.
+  intros p s a p1 s1 T r2 HR Hi Hw Ha HN.
+  assert (HaT : a ++ T <> []) by (destruct a; [congruence|discriminate]).
+  inversion HN; subst.
+  - rewrite app_nil_r. eexists. split; [eapply NW_short; eauto|apply simW_refl].
+  - pose proof (JU_merge _ _ _ _ HR Hi Hw Ha T H) as (_ & _ & M).
+    destruct (M eq_refl eq_refl _ H0) as ([[[[pm sm] restm] dm] em] & R2 & S2).
+    cbn [simu] in S2. destruct S2 as (<- & <- & S2).
+    eexists. split; [eapply NW_err; eauto|]. cbn [simW]. split; [reflexivity|]. split; [reflexivity|]. congruence.
+  - pose proof (JU_merge _ _ _ _ HR Hi Hw Ha T H) as (_ & _ & M).
+    destruct (M eq_refl eq_refl _ H0) as ([[[[pm sm] restm] dm] em] & R2 & S2).
+    cbn [simu] in S2. destruct S2 as (<- & <- & S2). destruct (S2 eq_refl) as (P & <- & <-).
+    eexists. split; [eapply NW_done; eauto|]. cbn [simW]. auto.
+  - pose proof (JU_merge _ _ _ _ HR Hi Hw Ha T H) as (_ & _ & M).
+    destruct (M eq_refl eq_refl _ H0) as ([[[[pm sm] restm] dm] em] & R2 & S2).
+    cbn [simu] in S2. destruct S2 as (<- & <- & S2). destruct (S2 eq_refl) as (P & <- & <-).
+    pose proof (JU_inv1 _ _ _ _ HR Hi Ha eq_refl) as Hi1. cbn [fst] in Hi1.
+    pose proof (JU_inv1 _ _ _ _ H0 Hi1 H eq_refl) as Hi2. cbn [fst] in Hi2.
+    destruct (jfinN_peq _ _ _ _ _ _ Hi2 P H1) as (q2 & F & P2).
+    eexists. split; [eapply NW_short; eauto|]. cbn [simW]. auto.
+Qed.
+
+Lemma NextW_of_err : forall p s a p1 s1 rest d e T,
+  JU p s a (p1, s1, rest, d, e) -> e <> jpnil -> inv p -> W p -> a <> [] ->
+  exists p1' rest', NextW p s (a ++ T) (p1', s1, rest', e).
+Proof.
+  intros p s a p1 s1 rest d e T HR He Hi Hw Ha.
+  assert (HaT : a ++ T <> []) by (destruct a; [congruence|discriminate]).
+  destruct T as [|t T].
+  - rewrite app_nil_r. exists p1, rest. eapply NW_err; eauto.
+  - pose proof (JU_merge _ _ _ _ HR Hi Hw Ha (t :: T) ltac:(discriminate)) as (M & _ & _).
+    destruct (M He) as (p1' & rest' & d' & R'). exists p1', rest'. eapply NW_err; eauto.
+Qed.
+
+Lemma NextW_of_done : forall p s a p1 s1 rest T,
+  JU p s a (p1, s1, rest, true, jpnil) -> inv p -> W p -> a <> [] ->
+  exists p1', peq p1 p1' /\ NextW p s (a ++ T) (p1', s1, rest ++ T, jpnil).
+Proof.
+  intros p s a p1 s1 rest T HR Hi Hw Ha.
+  assert (HaT : a ++ T <> []) by (destruct a; [congruence|discriminate]).
+  destruct T as [|t T].
+  - rewrite !app_nil_r. exists p1. split; [apply peq_refl|]. eapply NW_done; eauto.
+  - pose proof (JU_merge _ _ _ _ HR Hi Hw Ha (t :: T) ltac:(discriminate)) as (_ & M & _).
+    destruct (M eq_refl eq_refl) as (p1' & P & R'). exists p1'. split; [exact P|]. eapply NW_done; eauto.
+Qed.
+
+(* ---------- read scripts ---------- *)
+(* a well-behaved reader: every read returns a nil error (with any number of
+   bytes, possibly none), except that the last read may carry io.EOF (with or
+   without data) *)
+Fixpoint script_okb (sc : list (bytes * Z)) : bool :=
+  match sc with
+  | [] => true
+  | (data, err) :: r =>
+      match r with
+      | [] => (err =? 0) || (err =? jeEOF)
+      | _ :: _ => (err =? 0) && script_okb r
+      end
+  end.
+
+Lemma script_okb_tail : forall x r, script_okb (x :: r) = true -> script_okb r = true.
+Proof.
+  intros [data err] r H. destruct r as [|y r]; [reflexivity|].
+  cbn [script_okb] in H. apply andb_true_iff in H. destruct H as [_ H]. exact H.
+Qed.
+
+Lemma script_okb_head : forall data err r, script_okb ((data, err) :: r) = true ->
+  err = 0 \/ (err = jeEOF /\ r = []).
+Proof.
+  intros data err r H. cbn [script_okb] in H. destruct r as [|y r].
+  - apply orb_true_iff in H. destruct H as [H|H]; apply Z.eqb_eq in H; auto.
+  - apply andb_true_iff in H. destruct H as [H _]. apply Z.eqb_eq in H. auto.
+Qed.
+
+Lemma jdec_fill_okb : forall d, script_okb (jd_script d) = true ->
+  match jdec_fill d with
+  | JFbody d1 => script_okb (jd_script d1) = true
+  | JFfin d1 => script_okb (jd_script d1) = true /\ jrem d = []
+  | JFerr _ _ => False
+  end.
+Proof.
+  intros d H. pose proof (jdec_fill_spec d) as S. unfold jdec_fill in *.
+  destruct (zlen (jd_buf d) =? 0) eqn:Eb; [|exact H].
+  destruct (jd_bytesdec d) eqn:Ebd.
+  { split; [exact H|]. destruct S as (_ & _ & _ & [S|(r & S & _ & K)]); [exact S|discriminate K]. }
+  destruct (jd_script d) as [|[data err] rest] eqn:Es.
+  { split; [rewrite Es; exact H|]. destruct S as (_ & _ & _ & [S|(r & S & _)]); [exact S|discriminate S]. }
+  cbv zeta in *. pose proof (script_okb_tail _ _ H) as Ht.
+  destruct (script_okb_head _ _ _ H) as [->|[-> ->]].
+  - change (negb (0 =? 0)) with false. rewrite andb_false_r. exact Ht.
+  - destruct ((zlen data =? 0) && negb (jeEOF =? 0)) eqn:Ec; [|exact Ht].
+    change (jeEOF =? jeEOF) with true. cbv iota. cbn [jd_script]. split; [reflexivity|].
+    apply andb_true_iff in Ec. destruct Ec as [Ec _]. apply zlen0_nil in Ec. subst data.
+    apply zlen0_nil in Eb. unfold jrem, jtailb. rewrite Eb, Ebd, Es. reflexivity.
+Qed.
+
+(* what holds after a Next that returned nil *)
+Definition dpost (d' : jdecoder) (e : Z) : Prop :=
+  e = jpnil -> script_okb (jd_script d') = true /\ inv (jd_p d') /\ (W (jd_p d') \/ jrem d' = []).
+
+(* the stream is exhausted: Next is the decoder's finalize *)
+Lemma jdec_next_eof : forall fuel d s d' s' e,
+  jrem d = [] -> script_okb (jd_script d) = true ->
+  jdec_next fuel pf d s = Ok (d', s', e) ->
+  jfinN (jd_p d) s = Some (jd_p d', s', e) /\ jrem d' = [] /\ script_okb (jd_script d') = true.
+Proof.
+  induction fuel as [|f IH]; intros d s d' s' e Hr Hsc H; [discriminate|].
+  rewrite jdec_next_S in H. pose proof (jdec_fill_spec d) as Hf. pose proof (jdec_fill_okb d Hsc) as Ho.
+  destruct (jdec_fill d) as [d1|d1|d1 e1]; [| |contradiction].
+  - destruct Hf as [Hp Hr1]. rewrite Hr in Hr1.
+    assert (Hb : jd_buf d1 = []) by (unfold jrem in Hr1; apply app_eq_nil in Hr1; apply Hr1).
+    unfold jdec_body in H. rewrite Hb in H. cbn in H.
+    apply IH in H; [|unfold jrem, jtailb in *; cbn [jd_buf jd_script jd_bytesdec]; rewrite Hb in Hr1; exact Hr1|exact Ho].
+    cbn [jd_p] in H. rewrite <- Hp. exact H.
+  - destruct Hf as (Hp & Hb & Hr1 & _). destruct Ho as [Ho _].
+    destruct (jdec_finalize_finN _ _ _ _ _ H) as (F & E1 & E2 & E3).
+    rewrite <- Hp. split; [exact F|]. split; [|rewrite E2; exact Ho].
+    rewrite <- Hr, <- Hr1. unfold jrem, jtailb. rewrite E1, E2, E3. reflexivity.
+Qed.
+
+Lemma jfinN_post : forall p s p1 s1, inv p -> jfinN p s = Some (p1, s1, jpnil) -> inv p1.
+Proof.
+  intros p s p1 s1 Hi H. unfold jfinN in H.
+  destruct (jfinalize pf p s) as [[[pa sa] ea]|] eqn:Ef; [|discriminate].
+  destruct (negb (jisnil ea)) eqn:En.
+  { inversion H; subst. vm_compute in En. discriminate En. }
+  destruct (jp_cur p =? jNumber) eqn:Ec; [|inversion H; ust; lia].
+  inversion H; subst. apply negb_false_iff, jisnil_true' in En. subst ea.
+  unfold jfinalize in Ef. rewrite Ec in Ef. inv_split Hi.
+  destruct (report_number pf s _ _) as [[s2 e2]|]; [|discriminate].
+  destruct (jisnil e2) eqn:E2; cbn [negb] in Ef; [|inversion Ef; subst; vm_compute in E2; discriminate E2].
+  destruct (_ && _); inversion Ef; subst; apply (jpop_ok _ Hst Her).
+Qed.
+
+Lemma jdec_next_sound : forall fuel d s d' s' e,
+  inv (jd_p d) -> W (jd_p d) -> script_okb (jd_script d) = true ->
+  jdec_next fuel pf d s = Ok (d', s', e) ->
+  exists r, NextW (jd_p d) s (jrem d) r /\ simW r (jd_p d', s', jrem d', e) /\ dpost d' e.
+Proof.
+  induction fuel as [|f IH]; intros d s d' s' e Hi Hw Hsc H; [discriminate|].
+  (* an exhausted stream *)
+  assert (Heof : jrem d = [] ->
+    exists r, NextW (jd_p d) s (jrem d) r /\ simW r (jd_p d', s', jrem d', e) /\ dpost d' e).
+  { intros Hr. destruct (jdec_next_eof _ _ _ _ _ _ Hr Hsc H) as (F & Hr' & Ho').
+    rewrite Hr, Hr'. eexists. split; [apply NW_eof; exact F|]. split; [apply simW_refl|].
+    intros ->. split; [exact Ho'|]. split; [eapply jfinN_post; eauto|right; exact Hr']. }
+  rewrite jdec_next_S in H. pose proof (jdec_fill_spec d) as Hf. pose proof (jdec_fill_okb d Hsc) as Ho.
+  destruct (jdec_fill d) as [d1|d1|d1 e1] eqn:Efill; [| |contradiction].
+  - destruct Hf as [Hp Hr]. rewrite <- Hr, <- Hp.
+    assert (Hi1 : inv (jd_p d1)) by (rewrite Hp; exact Hi).
+    assert (Hw1 : W (jd_p d1)) by (rewrite Hp; exact Hw).
+    unfold jdec_body in H.
+    destruct (jd_buf d1) as [|b0 br] eqn:Eb.
+    + (* an empty read: read again *)
+      cbn in H.
+      match type of H with jdec_next f pf ?d2 _ = _ => destruct (IH d2 _ _ _ _ Hi1 Hw1 Ho H) as (r & N & S & P) end.
+      cbn [jd_p] in N. exists r. split; [|auto].
+      unfold jrem in *. cbn [jd_buf] in N. rewrite Eb. exact N.
+    + assert (Hb : jd_buf d1 <> []) by (rewrite Eb; discriminate). rewrite <- Eb in *. clear Eb b0 br.
+      destruct (jfeed_until (jfeed_fuel (jd_buf d1)) pf (jd_p d1) s (jd_buf d1) (jd_buf d1))
+        as [[p1 s1 rest rep err|w]| | |] eqn:Hfu; try discriminate.
+      pose proof (jfeed_until_JU _ _ _ _ _ _ _ _ _ _ Hi1 Hw1 Hb Hfu) as HJ.
+      destruct (jisnil err) eqn:Ee; cbn [negb] in H.
+      * apply jisnil_true' in Ee. subst err.
+        destruct (JU_inv _ _ _ _ HJ Hi1 Hw1 Hb eq_refl) as [Hi2 Hw2]. cbn [fst] in Hi2, Hw2.
+        destruct rep.
+        -- inversion H; subst d' s' e. unfold jrem at 1.
+           destruct (NextW_of_done _ _ _ _ _ _ (jtailb d1) HJ Hi1 Hw1 Hb) as (p1' & P & N).
+           eexists. split; [exact N|]. split.
+           ++ cbn [simW]. split; [reflexivity|]. split; [reflexivity|]. intros _.
+              split; [apply peq_sym; exact P|reflexivity].
+           ++ intros _. cbn [jd_script jd_p]. auto.
+        -- pose proof (JU_short _ _ _ _ _ _ HJ) as ->.
+           match type of H with jdec_next f pf ?d2 _ = _ => destruct (IH d2 _ _ _ _ Hi2 Hw2 Ho H) as (r2 & N2 & S2 & P2) end.
+           cbn [jd_p] in N2. unfold jrem in N2 at 1. cbn [jd_buf app] in N2.
+           match type of N2 with NextW _ _ (jtailb ?d2) _ => change (jtailb d2) with (jtailb d1) in N2 end.
+           destruct (NextW_merge_short _ _ _ _ _ _ _ HJ Hi1 Hw1 Hb N2) as (r2' & N2' & S2').
+           exists r2'. split; [exact N2'|]. split; [|exact P2].
+           eapply simW_trans; [apply simW_sym; exact S2'|exact S2].
+      * apply jisnil_false in Ee. inversion H; subst d' s' e.
+        destruct (NextW_of_err _ _ _ _ _ _ _ _ (jtailb d1) HJ Ee Hi1 Hw1 Hb) as (p1' & rest' & N).
+        eexists. split; [exact N|]. split.
+        -- cbn [simW]. split; [reflexivity|]. split; [reflexivity|]. intros; congruence.
+        -- intros E. congruence.
+  - destruct Ho as [_ Hr]. exact (Heof Hr).
+Qed.
+
+(* ---------- C18 (c): script independence ---------- *)
+(* Two decoders whose parsers agree (modulo the dead field jp_req) and which have the
+   same bytes still to come - however these are split between the buffer and the reads
+   of a well-behaved reader, with or without empty reads, and whether the last bytes
+   come together with io.EOF, before it, or the script just ends; a bytes decoder is
+   the case "everything is in the buffer" - deliver the same events and the same
+   verdict in their next Next, and after a nil verdict they are again such a pair. *)
+Definition jdec_ok (d : jdecoder) : Prop :=
+  inv (jd_p d) /\ (W (jd_p d) \/ jrem d = []) /\ script_okb (jd_script d) = true.
+
+Theorem C18_json_script_independent_partial : forall f1 f2 d1 d2 s d1' s1' e1 d2' s2' e2,
+  jdec_ok d1 -> script_okb (jd_script d2) = true ->
+  peq (jd_p d1) (jd_p d2) -> jrem d1 = jrem d2 ->
+  jdec_next f1 pf d1 s = Ok (d1', s1', e1) -> jdec_next f2 pf d2 s = Ok (d2', s2', e2) ->
+  s1' = s2' /\ e1 = e2 /\
+  (e1 = jpnil -> peq (jd_p d1') (jd_p d2') /\ jrem d1' = jrem d2' /\ jdec_ok d1' /\
+                 script_okb (jd_script d2') = true).
+Proof.
+  intros f1 f2 d1 d2 s d1' s1' e1 d2' s2' e2 (Hi & Hw & Hs1) Hs2 Hp Hr H1 H2.
+  assert (Hi2 : inv (jd_p d2)) by (eapply inv_peq; eauto).
+  destruct Hw as [Hw|He].
+  - destruct (jdec_next_sound _ _ _ _ _ _ Hi Hw Hs1 H1) as (r1 & N1 & S1 & P1).
+    assert (Hw2 : W (jd_p d2)) by (eapply W_peq; eauto).
+    destruct (jdec_next_sound _ _ _ _ _ _ Hi2 Hw2 Hs2 H2) as (r2 & N2 & S2 & P2).
+    destruct (NextW_peq _ _ _ _ _ N1 Hp Hi) as (r1' & N1' & S1').
+    rewrite <- Hr in N2. pose proof (NextW_det _ _ _ _ _ N1' N2) as E. subst r1'.
+    pose proof (simW_trans _ _ _ (simW_sym _ _ S1) (simW_trans _ _ _ S1' S2)) as S.
+    cbn [simW] in S. destruct S as (<- & <- & S).
+    split; [reflexivity|]. split; [reflexivity|]. intros E.
+    destruct (S E) as (A & B). destruct (P1 E) as (Q1 & Q2 & Q3). destruct (P2 E) as (Q4 & _).
+    split; [exact A|]. split; [exact B|]. split; [|exact Q4]. unfold jdec_ok. auto.
+  - assert (He2 : jrem d2 = []) by congruence.
+    destruct (jdec_next_eof _ _ _ _ _ _ He Hs1 H1) as (F1 & R1 & O1).
+    destruct (jdec_next_eof _ _ _ _ _ _ He2 Hs2 H2) as (F2 & R2 & O2).
+    destruct (jfinN_peq _ _ _ _ _ _ Hi Hp F1) as (q1 & F1' & P).
+    rewrite F1' in F2. inversion F2; subst.
+    split; [reflexivity|]. split; [reflexivity|]. intros E.
+    split; [apply P; exact E|]. split; [congruence|]. split; [|exact O2].
+    unfold jdec_ok. split; [rewrite E in F1; exact (jfinN_post _ _ _ _ Hi F1)|]. auto.
+Qed.
+
+(* the observable behaviour of up to k calls of Next: the visitor's log and the
+   verdict after each call, stopping at the first non-nil verdict *)
+Fixpoint jdec_run (fuel k : nat) (d : jdecoder) (s : sink) : res (list (list event * Z)) :=
+  match k with
+  | O => Ok []
+  | S k' =>
+      match jdec_next fuel pf d s with
+      | Ok (d', s', e) =>
+          if jisnil e then
+            match jdec_run fuel k' d' s' with
+            | Ok l => Ok ((s_log s', e) :: l)
+            | x => x
+            end
+          else Ok [(s_log s', e)]
+      | Err e => Err e | Panic w => Panic w | OutOfFuel => OutOfFuel
+      end
+  end.
+
+Theorem C18_json_run_script_independent_partial : forall f1 f2 k d1 d2 s l1 l2,
+  jdec_ok d1 -> script_okb (jd_script d2) = true ->
+  peq (jd_p d1) (jd_p d2) -> jrem d1 = jrem d2 ->
+  jdec_run f1 k d1 s = Ok l1 -> jdec_run f2 k d2 s = Ok l2 -> l1 = l2.
+Proof.
+  induction k as [|k IH]; intros d1 d2 s l1 l2 Hok Hs2 Hp Hr H1 H2; cbn [jdec_run] in H1, H2.
+  - congruence.
+  - destruct (jdec_next f1 pf d1 s) as [[[d1' s1'] e1]| | |] eqn:E1; try discriminate.
+    destruct (jdec_next f2 pf d2 s) as [[[d2' s2'] e2]| | |] eqn:E2; try discriminate.
+    destruct (C18_json_script_independent_partial _ _ _ _ _ _ _ _ _ _ _ Hok Hs2 Hp Hr E1 E2)
+      as (<- & <- & K).
+    destruct (jisnil e1) eqn:Ee.
+    + apply jisnil_true' in Ee. subst e1. destruct (K eq_refl) as (Kp & Kr & Kok & Ks2).
+      destruct (jdec_run f1 k d1' s1') as [l1'| | |] eqn:R1; try discriminate.
+      destruct (jdec_run f2 k d2' s1') as [l2'| | |] eqn:R2; try discriminate.
+      rewrite (IH _ _ _ _ _ Kok Ks2 Kp Kr R1 R2) in H1. congruence.
+    + congruence.
+Qed.
+
+(* with totality (a): the runs do return *)
+Theorem C18_json_run_total : forall k fuel d s,
+  inv (jd_p d) -> (jmeasure d < fuel)%nat -> exists l, jdec_run fuel k d s = Ok l.
+Proof.
+  induction k as [|k IH]; intros fuel d s Hi Hm; cbn [jdec_run]; [eauto|].
+  destruct (C18_json_next_total fuel d s Hi Hm) as (d' & s' & e & H & Hinv & Hle). rewrite H.
+  destruct (jisnil e) eqn:Ee; [|eauto].
+  apply jisnil_true' in Ee. destruct (IH fuel d' s' (Hinv Ee)) as (l & Hl); [lia|]. rewrite Hl. eauto.
+Qed.
+
+(* in particular: a reader decoder behaves like the bytes decoder on the
+   concatenation of everything the reader delivers *)
+Definition jreader_dec (sc : list (bytes * Z)) : jdecoder :=
+  {| jd_p := jparser0; jd_buf := []; jd_script := sc; jd_bytesdec := false |}.
+Definition jbytes_dec (b : bytes) : jdecoder :=
+  {| jd_p := jparser0; jd_buf := b; jd_script := []; jd_bytesdec := true |}.
+
+Corollary C18_json_reader_as_bytes_partial : forall f1 f2 k sc s l1 l2,
+  script_okb sc = true ->
+  jdec_run f1 k (jreader_dec sc) s = Ok l1 ->
+  jdec_run f2 k (jbytes_dec (concat (map fst sc))) s = Ok l2 -> l1 = l2.
+Proof.
+  intros f1 f2 k sc s l1 l2 Hsc H1 H2.
+  eapply (C18_json_run_script_independent_partial f1 f2 k (jreader_dec sc) (jbytes_dec (concat (map fst sc))));
+    try eassumption; try reflexivity.
+  - unfold jdec_ok, jreader_dec. cbn [jd_p jd_script]. split; [apply inv0|]. split; [left; apply W0|exact Hsc].
+  - apply peq_refl.
+  - unfold jrem, jtailb, jreader_dec, jbytes_dec. cbn [jd_buf jd_script jd_bytesdec app]. rewrite app_nil_r. reflexivity.
+Qed.
+
+(* two scripts with the same data: same sequence of (events, verdict), and both runs return *)
+Corollary C18_json_scripts_same_data : forall k sc1 sc2 s fuel,
+  script_okb sc1 = true -> script_okb sc2 = true ->
+  concat (map fst sc1) = concat (map fst sc2) ->
+  (2 * length sc1 + 1 <= fuel)%nat -> (2 * length sc2 + 1 <= fuel)%nat ->
+  exists l, jdec_run fuel k (jreader_dec sc1) s = Ok l /\ jdec_run fuel k (jreader_dec sc2) s = Ok l.
+Proof.
+  intros k sc1 sc2 s fuel H1 H2 Hc Hf1 Hf2.
+  destruct (C18_json_run_total k fuel (jreader_dec sc1) s inv0) as (l1 & R1).
+  { unfold jmeasure, jreader_dec. cbn [jd_script jd_buf]. lia. }
+  destruct (C18_json_run_total k fuel (jreader_dec sc2) s inv0) as (l2 & R2).
+  { unfold jmeasure, jreader_dec. cbn [jd_script jd_buf]. lia. }
+  exists l1. split; [exact R1|]. rewrite R2. f_equal. symmetry.
+  eapply (C18_json_run_script_independent_partial fuel fuel k (jreader_dec sc1) (jreader_dec sc2)); try eassumption.
+  - unfold jdec_ok, jreader_dec. cbn [jd_p jd_script]. split; [apply inv0|]. split; [left; apply W0|exact H1].
+  - apply peq_refl.
+Qed.
+
 End JsonVisitor.
+
+(* The Write flavour of C17 needs the side condition jp_lit p = []: finalize reports a
+   pending top-level number and pops its state but leaves the literal in the buffer,
+   and doString takes a non-empty buffer for a key that was begun in an earlier
+   write.  Parse "12" (accepted), then Write {"a":1} on the same parser: the key
+   is "2" and the input is refused; a fresh parser accepts it.  (Not reachable through
+   Parser.Parse, which empties the buffer first; the Decoder finalizes at io.EOF only.) *)
+Example C17_json_write_after_number : forall pf,
+  match jp_parse pf jparser0 (sink0 None) [49; 50] with
+  | Ok (p, _, e) =>
+      e = jpnil /\ jp_lit p = [49; 50] /\
+      match jp_writes pf p (sink0 None) [[123; 34; 97; 34; 58; 49; 125]],
+            jp_writes pf jparser0 (sink0 None) [[123; 34; 97; 34; 58; 49; 125]] with
+      | Ok (_, s1, e1), Ok (_, s2, e2) =>
+          e1 = jeGeneric /\ s_log s1 = [EObjStart (-1) BAny; EKeyRef [50]] /\
+          e2 = jpnil /\ s_log s2 = [EObjStart (-1) BAny; EKeyRef [97]; EVal (SNum KInt64 1); EObjEnd]
+      | _, _ => False
+      end
+  | _ => False
+  end.
+Proof. intros pf. vm_compute. repeat split. Qed.
 
 Print Assumptions C16_json_parse_prompt.
 Print Assumptions C16_json_parse_fail_spec.
@@ -1142,3 +2739,14 @@ Print Assumptions C17_json_parse_idle.
 Print Assumptions C17_json_writes_idle.
 Print Assumptions C17_json_run_parse_reset.
 Print Assumptions C17_json_run_chunks_reset.
+Print Assumptions C17_json_reuse_parse.
+Print Assumptions C17_json_reuse_writes.
+Print Assumptions C17_json_parse_reusable.
+Print Assumptions C17_json_write_reusable.
+Print Assumptions C18_json_next_total.
+Print Assumptions C18_json_next_value_partial.
+Print Assumptions C18_json_script_independent_partial.
+Print Assumptions C18_json_run_script_independent_partial.
+Print Assumptions C18_json_run_total.
+Print Assumptions C18_json_reader_as_bytes_partial.
+Print Assumptions C18_json_scripts_same_data.
